@@ -12,2066 +12,2083 @@ Definition show_fres (r : fres) : string :=
   end.
 Definition check (rs : list rune) : string := digest (show_fres (format_res rs)).
 Definition full (rs : list rune) : string := show_fres (format_res rs).
-Eval vm_compute in ("<<<M3608>>>" ++ check (runes_of_ascii "// top
+Eval vm_compute in ("<<<M1276>>>" ++ check (runes_of_ascii "
+packet f32a{ @calculatedFrom(""packet""  )@tag( 00 ) @leftPad
+    // a // b
+    ('0')rootA, @tag( 65535
+    )string roots @lengthOf(	MetaDataX  )
+    `" ++ [233]%N ++ runes_of_ascii "`,@rightPad (  )
+    zchar[
+    10 ]matchKey // @lengthOf(
+@lengthOf( float )// packet A { u8 x, }
+,
+@rightPad
+    ( )roots MetaDataX
+, u128 , // c
+match
+// `tick` ""quote"" 'q'
+// " ++ [128512]%N ++ runes_of_ascii " emoji
+len as	BodyLength {	""" ++ [128512]%N ++ runes_of_ascii """ :
+    float,[ 4294967296 ,// a // b
+00,
+    0123456789
+, ""`tick`"" ,""it's"", ""\n"", 65535 , 7 ] ://	t
+calculatedFrom ,
+[ ""packet""  , 007//
+, ""\" ++ [233]%N ++ runes_of_ascii """
+]
+: _x	[
+""" ++ [128512]%N ++ runes_of_ascii """ ,""a\""b""//	t
+, 0123456789 ] // c
+: // @lengthOf(
+_x ,65535 : As 255 : stringy	,
+}	, calculatedFrom// @lengthOf(
+{ char[]
+    matchKey
+    @calculatedFrom( """ ++ [128512]%N ++ runes_of_ascii """ // c
+) , u32
+    u8x @lengthOf( i8i8
+    ), f32a // c
+options1
+    `line1
+line2`
+, float64	rootA // " ++ [27880; 37322]%N ++ runes_of_ascii "
+,
+//	t
+//	t
+}, @tag( 0 ) @lengthOf( Z9_
+) T Foo `" ++ [233]%N ++ runes_of_ascii "` ,match T	as
+Packet { 3 : u8x
+    , 4294967296 //x
+: matchKey,
+    """ ++ [233]%N ++ runes_of_ascii "t" ++ [233]%N ++ runes_of_ascii """
+: Foo// @lengthOf(
+, ""a\""b"":
+repeatCount
+    , 7 : stringy  , }// trailing space 
+, @leftPad( //
+'\x00'	)repeat
+    pack ,  } packet x { @lengthOf(// packet A { u8 x, }
+falsey )repeat int32 a1 // " ++ [27880; 37322]%N ++ runes_of_ascii "
+,
+    @leftPad(
+    ) repeat f32a,  match	Foo as// packet A { u8 x, }
+calculatedFrom
+    {""x y"" : calculatedFrom 7 : len , ""abc""
+    :  charz
+,
+}  , uint8x
+,
+@lengthOf(	o ) // " ++ [27880; 37322]%N ++ runes_of_ascii "
+repeat
+string_  {zchar[ 7] Packet
+@calculatedFrom( // trailing space 
+""x y"") ,repeat
+    string charz , float64 _x @calculatedFrom( ""1""
+    ),}
+    // `tick` ""quote"" 'q'
+    , crc,char[ 65535 ] metadata @calculatedFrom( ""\n"" ) `" ++ [28040; 24687; 31867; 22411]%N ++ runes_of_ascii "` ,
+repeat uint64 msg_type
+//x
+//x
+`{ , }` ,char[
+1] charz
+    ,@rightPad ( '\x00')
+    repeat i32 o // `tick` ""quote"" 'q'
+`crlf
+line`, }
+MetaData i8i8
+{rootA packetx `doc` ,  x As , }//
+root packet u128
+// @lengthOf(
+// @lengthOf(
+{ } packet falsey { u @lengthOf( i8i8
+),@lengthOf(
+u )f32
+    //	t
+    Header , @calculatedFrom( ""`tick`""  )
+stringy
+@calculatedFrom( """ ++ [233]%N ++ runes_of_ascii "t" ++ [233]%N ++ runes_of_ascii """
+    ) `two words` , char[ 65535 ]string_ @lengthOf(lengthOf
+    ), Pad u128 , Packet
+    `
+`
+,// `tick` ""quote"" 'q'
+@calculatedFrom( ""abc""// trailing space 
+) char[
+00
+]
+roots`line1
+line2`
+, @tag(// trailing space 
+7 )char[]trueish @calculatedFrom( ""\n"")
+    , @calculatedFrom( ""packet""
+    ) @lengthOf( As ) char[ 3 ] // a // b
+charz @lengthOf(options1 ) , u32 _x @calculatedFrom( ""a\\"" )`u8 x,` ,}
+")).
+Eval vm_compute in ("<<<M3637>>>" ++ check (runes_of_ascii "// top
 options // c0
-{ LittleEndian =
-    // c3
-true ; StringPrefixLenType
-    // c6
-= // c7a
-  // c7b
-u16 ; // c9a
-  // c9b
+{ LittleEndian // c2a
+  // c2b
+= false // c4
+;
+    // c5
+StringPrefixLenType // c6a
+  // c6b
+= u8 // c8a
+  // c8b
+; // c9
 ArrayPrefixLenType
     // c10
-=
-    // c11
-u8 // c12
-; // c13a
+= // c11
+u8 ; // c13a
   // c13b
-FixedStringPadChar // c14a
-  // c14b
-= '0' // c16a
-  // c16b
-; } // c18a
-  // c18b
-packet Logout
-    // c20
-{
-    // c21
-repeat // c22
-i16 f1 ,
-    // c25
-string Ref // c27
-, // c28
-@rightPad // c29
-( // c30a
-  // c30b
-'\x00' // c31a
-  // c31b
-) // c32a
-  // c32b
-char[
-    // c33
-9 ] // c35
-Tail // c36
-,
-    // c37
-repeat // c38a
-  // c38b
-char[
-    // c39
-6 // c40
-] // c41
-Flags
-    // c42
-, // c43a
-  // c43b
-repeat char[ // c45
-3 // c46
-] Acct
-    // c48
-, // c49
-} packet // c51
-Party // c52a
-  // c52b
-{ char[ // c54
-2 // c55
-]
-    // c56
-f1 // c57
-, // c58a
-  // c58b
-u8 // c59a
-  // c59b
-Side2
-    // c60
-,
-    // c61
-@leftPad // c62
-( // c63
-' ' ) // c65
-char[ // c66
-1 // c67a
-  // c67b
-] // c68
-venue // c69a
-  // c69b
-, // c70
-}
-    // c71
-packet
-    // c72
-Order { // c74
-repeat
-    // c75
-i64
-    // c76
-Ref // c77
-, InPx62
-    // c79
-{ // c80a
-  // c80b
-i32 // c81a
-  // c81b
-OrderId , // c83a
-  // c83b
-} // c84
-, InNote53
-    // c86
-{ InClordid80
-    // c88
-{
-    // c89
-char[] Acct // c91
-,
-    // c92
-u32 // c93
-Px // c94a
-  // c94b
-, // c95
-repeat Party // c97a
-  // c97b
-, }
-    // c99
-, // c100
-InPrice12 // c101a
-  // c101b
-{ // c102a
-  // c102b
-u8 // c103a
-  // c103b
-pad0
-    // c104
-,
-    // c105
-} // c106
-, repeat Logout // c109
-, // c110a
-  // c110b
-InFlags23 // c111
-{
-    // c112
-repeat string // c114
-seqNo , // c116
-string // c117a
-  // c117b
-sym // c118a
-  // c118b
-, int8 Flags , zchar[
-    // c123
-5 // c124
-] lastPx // c126
-, zchar[ // c128
-6 ] // c130
-Px // c131
-, } , char[ // c135
-10
-    // c136
-]
-    // c137
-Acct // c138a
-  // c138b
-,
-    // c139
-InPx18 // c140
-{ // c141a
-  // c141b
-zchar[ 2
-    // c143
-] // c144a
-  // c144b
-count // c145
-, // c146
-Party ,
-    // c148
-} // c149
-, // c150a
-  // c150b
-} // c151a
-  // c151b
-, // c152a
-  // c152b
-char[ // c153
-5 ]
-    // c155
-Side2 // c156
-, // c157a
-  // c157b
-char[
-    // c158
-1 // c159
-] // c160a
-  // c160b
-Acct , } // c163
-root
-    // c164
-packet // c165
-Ack
-    // c166
-{ u32 Tail , // c170a
-  // c170b
-repeat // c171
-char[ 4 // c173
-] // c174a
-  // c174b
-msgKind // c175
-,
-    // c176
-repeat // c177
-Logout // c178
-,
-    // c179
-} // c180
-")).
-Eval vm_compute in ("<<<M837>>>" ++ check (runes_of_ascii "/// triple
-packet  options1
-    { @leftPad( '\x00'	) @rightPad( )	@rightPad
-(	'0' ) repeat BodyLength	{a1  falsey`u8 x,`//x
-,} , float32 calculatedFrom,	match trueish as
-    len{ ""a	b"" : //x
-Packet 7  :options1 ,
-7
-// trailing space 
-//x
-: _x , [ ""`tick`"" , 3,""" ++ [128512]%N ++ runes_of_ascii """	,
-// packet A { u8 x, }
-// @lengthOf(
-1
-, """ ++ [28040; 24687]%N ++ runes_of_ascii """,
-    0123456789 ,
-""{,}""
-    ,
-    ""1""]
-:
-    pack  , ""CRC32"": i8i8 , ""// no comment"" : trueish } ,metadata
-rootA `" ++ [28040; 24687; 31867; 22411]%N ++ runes_of_ascii "` , i32
-x_y_z `two words` ,
-    repeat i32 x_y_z
-`" ++ [28040; 24687; 31867; 22411]%N ++ runes_of_ascii "`  ,
-@leftPad
-    ( '0' ) @leftPad( '0'
-    )x @calculatedFrom(
-/// triple
-// trailing space 
-""\n"" ) `{ , }` ,
-@tag( 1 )
-    //
-    repeat u32 asx
-    ,	u8x @lengthOf( packetx
-)`two words` , } packet int{
-    zchar[
-// `tick` ""quote"" 'q'
-// c
-65535
-] leftPad
-, @lengthOf( /// triple
-repeatCount
-    ) @tag( 0123456789 )match
-    lengthOf  as // a // b
-calculatedFrom { [ ""a\\""
-] :
-    trueish
-,
-""x y"" : A, """ ++ [233]%N ++ runes_of_ascii "t" ++ [233]%N ++ runes_of_ascii """ :
-options1 , }
-    , string
-    uint8x
-`it's` ,
-    repeat uint16
-u8x  , } packet zchar
-{ // a // b
-zchar[ 255 ]
-    chars @calculatedFrom(  ""packet"" ) ,	match
-    BodyLength as //x
-x_y_z
-    { ""\n"" :u128 , 00 :Packet
-,
-}
-    ,@leftPad
-( '\x00'
-)repeat o
-{ Z9_ @lengthOf(asx )
-, }
-    , // trailing space 
-@calculatedFrom(""" ++ [28040; 24687]%N ++ runes_of_ascii """ )repeat
-    // `tick` ""quote"" 'q'
-    u64 trueish , i32
-charz,x	`tab	here`
-,
-    string // c
-u128// a // b
-`// not a comment` ,
-len {
-match chars as Foo
-// @lengthOf(
-// packet A { u8 x, }
-{
-    """":u""packet"" : matchKey , ""// no comment"" :
-packetx [
-65535
-,""it's"", """ ++ [128512]%N ++ runes_of_ascii """ , 0123456789 // trailing space 
-, ""a\\"" ,  ""a\\"" ,""" ++ [28040; 24687]%N ++ runes_of_ascii """ ,
-    ""{,}""  ]:
-len,
-    // " ++ [27880; 37322]%N ++ runes_of_ascii "
-    ""\" ++ [233]%N ++ runes_of_ascii """: msg_type , ""abc"":
-o // @lengthOf(
-} ,} ,
-@calculatedFrom( """" ) match // trailing space 
-falsey
-    as calculatedFrom
-    { // `tick` ""quote"" 'q'
-[
-    1
-, """ ++ [233]%N ++ runes_of_ascii "t" ++ [233]%N ++ runes_of_ascii """ ]
-    : body , ""`tick`""
-: calculatedFrom , 3
-    :  x_y_z ,""it's"":Packet ,[ 007  ] : Foo , """ ++ [128512]%N ++ runes_of_ascii """ : Foo ,} , // " ++ [27880; 37322]%N ++ runes_of_ascii "
-match leftPad as stringy {
-""a\\""  : T,
-} , }")).
-Eval vm_compute in ("<<<M538>>>" ++ check (runes_of_ascii "options
-    // c
-    {
-    chars =
-    '0' ; Pad // " ++ [27880; 37322]%N ++ runes_of_ascii "
-= 42 ;
-    } packet
-    roots
-{@calculatedFrom( """ ++ [28040; 24687]%N ++ runes_of_ascii """ ) @calculatedFrom(// a // b
-""// no comment"" ) chars, }
-    packet body { @lengthOf( x  ) match msg_type as x_y_z { 0123456789 :  uint8x
-, // packet A { u8 x, }
-""`tick`"" :
-i64_ // packet A { u8 x, }
-00 //
-:
-    a1
-""{,}"" :Header,	[255]	: falsey ,
-}
-, @calculatedFrom( ""\n"" ) @rightPad
-() @lengthOf( BodyLength) i16	A @lengthOf( uint8x ),char[] Foo @lengthOf(
-T )
-, @leftPad
-    (  '0' ) _x {Logon// trailing space 
-@lengthOf( //x
-u
-), } , @leftPad	( '\x00'
-) char[ 4294967296 ]
-    trueish @calculatedFrom(""x y"" )
-`" ++ [233]%N ++ runes_of_ascii "` ,@rightPad	(
-    ' ')
-    // packet A { u8 x, }
-    match msg_type as pack {[
-""a\""b"" , ""`tick`""]	: asx
-,""x y"" :  a1 // `tick` ""quote"" 'q'
-,
-    """ ++ [128512]%N ++ runes_of_ascii """	:
-    MetaDataX 42 :Foo	007//x
-: trueish
-/// triple
-// @lengthOf(
-""it's"" : string_	}	, repeat Header`
-`, @tag(
-00) f32
-options1 @lengthOf( calculatedFrom) ,zchar[255 ] Logon, } root
-packet packetx { @lengthOf(	calculatedFrom ) metadata	x_y_z, }
-packet leftPad { match roots  as
-falsey {
-""x y"" : u ,""x y"" : msg_type }
-    ,repeat int64 leftPad
-,
-u @calculatedFrom( ""x y"" ) `tab	here`
-, @calculatedFrom(
-""packet"" ) match
-// " ++ [27880; 37322]%N ++ runes_of_ascii "
-// `tick` ""quote"" 'q'
-matchKey as BodyLength{ 255 :
-a1 007: T , // `tick` ""quote"" 'q'
-""`tick`""
-//	t
-// a // b
-:
-rootA, [ ""a\\""	,
-1
-,255,7 // packet A { u8 x, }
-, 1 , ""it's""
-, 1, 42]
-:x_y_z
-,
-    42 :
-i64_//x
-, }//
-, float64 x_y_z
-    `doc`
-,
-    uint8x //x
-,string
-    float
-//x
-// " ++ [27880; 37322]%N ++ runes_of_ascii "
-@calculatedFrom( ""\n"") ,
-@lengthOf(
-    // `tick` ""quote"" 'q'
-    o
-)stringy //
-@lengthOf(
-rootA ) , } //x")).
-Eval vm_compute in ("<<<M159>>>" ++ check (runes_of_ascii "MetaData MetaDataX
-    { i8i8 roots
-,	zchar[	65535
-    ]rootA
-`// not a comment`, // a // b
-x_y_z  leftPad
-    //x
-    `u8 x,`, char[] stringy
-// c
-//x
-`it's` ,
-} // packet A { u8 x, }
-packet
-    Foo {
-string	lengthOf , i32 packetx@lengthOf( asx ) `{ , }`
-    ,
-repeat falsey`two words`, char[] roots@calculatedFrom(""" ++ [28040; 24687]%N ++ runes_of_ascii """ // " ++ [128512]%N ++ runes_of_ascii " emoji
-), //
-leftPad// @lengthOf(
-@calculatedFrom( """ ++ [28040; 24687]%N ++ runes_of_ascii """ )`" ++ [233]%N ++ runes_of_ascii "` ,
-    @tag( 42
-)
-zchar[
-65535 ]
-    As @lengthOf( a1
-)
-`doc`
-, } root packet charz{
-    @tag(
-    4294967296
-) string options1
-    `tab	here`
-    // @lengthOf(
-    , }packet leftPad	{ } packet metadata { //	t
-i32	BodyLength
-    @calculatedFrom(
-    ""it's"" ) `say ""hi""`,
-@rightPad //
-(	)
-    // " ++ [128512]%N ++ runes_of_ascii " emoji
-    chars//x
-{
-repeat
-    falsey	{ uint64 tag @lengthOf(
-len )
-, char[ 42]packetx @calculatedFrom(
-//x
-// a // b
-""abc"" )
-, } , Header { zchar[ 00 //x
-] charz
-@calculatedFrom( ""x y"" ) // trailing space 
-, uint8 calculatedFrom @calculatedFrom( ""\n"" // c
-) , trueish `" ++ [28040; 24687; 31867; 22411]%N ++ runes_of_ascii "` , string_ // @lengthOf(
-@calculatedFrom( ""// no comment"" ) // c
-`it's` ,} , string crc ,
-}  , // " ++ [128512]%N ++ runes_of_ascii " emoji
-@calculatedFrom( ""1"" )
-    @calculatedFrom(	""" ++ [28040; 24687]%N ++ runes_of_ascii """
-    // " ++ [27880; 37322]%N ++ runes_of_ascii "
-    ) @tag(7
-// trailing space 
-//
-) i8
-Foo
-// @lengthOf(
-// a // b
-, i8 a1
-//
-//x
-@calculatedFrom( ""{,}"" ) ``
-, repeat falsey	{
-o // c
-@calculatedFrom( ""abc"" ) `
-`  , zchar[42 ] matchKey , }	, i64 As ,
-//	t
-// `tick` ""quote"" 'q'
-repeat As  , repeat
-    int64 string_
-, }
-//	t
-")).
-Eval vm_compute in ("<<<M449>>>" ++ check (runes_of_ascii "packet f32a
-{ @calculatedFrom( // " ++ [27880; 37322]%N ++ runes_of_ascii "
-""" ++ [128512]%N ++ runes_of_ascii """ )	char[65535
-    ] Logon , }
-    packet calculatedFrom { char[ 00
-// c
-// @lengthOf(
-]
-    x `u8 x,` , repeat u8x{
-repeat float64
-Packet ,} ,
-    repeat
-    Z9_ leftPad, @calculatedFrom(""{,}"" )  repeat	Header	Foo , @tag(
-    4294967296)
-    @calculatedFrom(
-""it's"" )@lengthOf(Logon )char[ 10
-    /// triple
-    ] len ``, char[ 7
-    ] lengthOf
-// a // b
-// " ++ [128512]%N ++ runes_of_ascii " emoji
-@calculatedFrom( """ ++ [28040; 24687]%N ++ runes_of_ascii """ ) `
-`,
-    // @lengthOf(
-    @lengthOf(i8i8
-)  repeat //	t
-string_ trueish `doc`
-    ,
-    // " ++ [27880; 37322]%N ++ runes_of_ascii "
-    match BodyLength // a // b
-as //	t
-rootA // @lengthOf(
-{
-""packet"": uint8x , }, match u128  as float {""" ++ [233]%N ++ runes_of_ascii "t" ++ [233]%N ++ runes_of_ascii """
-: stringy	""packet"" : lengthOf , """ ++ [233]%N ++ runes_of_ascii "t" ++ [233]%N ++ runes_of_ascii """
-:
-    // " ++ [27880; 37322]%N ++ runes_of_ascii "
-    lengthOf,""" ++ [128512]%N ++ runes_of_ascii """ :
-    lengthOf,""it's"" :As [""// no comment""	]  : int
-// " ++ [27880; 37322]%N ++ runes_of_ascii "
-/// triple
-,},
-    }	root packet // " ++ [27880; 37322]%N ++ runes_of_ascii "
-_x	{Header `say ""hi""` ,
-@leftPad ( '\x00' )@lengthOf( Packet
-    ) @rightPad	( ' '  )string msg_type
-    @calculatedFrom( """ ++ [233]%N ++ runes_of_ascii "t" ++ [233]%N ++ runes_of_ascii """// " ++ [128512]%N ++ runes_of_ascii " emoji
-) `tab	here` ,
-i64
-zchar //	t
-`crlf
-line`
-,i32
-x_y_z, @tag( 7  ) @leftPad
-(' ' )
-@calculatedFrom(
-//
-//	t
-""1""
-    )falsey`two words` , } // " ++ [27880; 37322]%N ++ runes_of_ascii "
-packet metadata { f64 u8x,
-u16  o `crlf
-line`
-    ,  msg_type {
-u8 a1 @lengthOf( u ) `it's`  ,// trailing space 
-}
-,@lengthOf( rootA /// triple
-) f32a { repeat
-    u16 uint8x, }
-,//
-}
-    options {
-} // " ++ [128512]%N ++ runes_of_ascii " emoji")).
-Eval vm_compute in ("<<<M4225>>>" ++ check (runes_of_ascii "
-packet leftPad  {char[4294967296]Pad , }	packet Z9_ { repeat
-int
-,i64_
-
-    @lengthOf( float 
-),
-repeat leftPad
-    { 
-string 
-_x
-,
-char[ 65535] x@calculatedFrom(""it's"")  `crlf
-line` , }	, @calculatedFrom(
-""" ++ [28040; 24687]%N ++ runes_of_ascii """ )
-    i32 tag/// triple
-    ,string
-body
-	@lengthOf(body
-) ``//
-
-	,	@tag(	4294967296 ) 
-uint16 Logon  @lengthOf( 
-    // packet A { u8 x, }
-	// packet A { u8 x, }
-  leftPad )// a // b
-    ``
-	,
-
-    }  root packet
-repeatCount  {	}
-
-    root
-
-    packet	options1
-
-    {
-@lengthOf( Z9_	)
-
-@calculatedFrom(
-
-    ""// no comment""
-	)  @calculatedFrom(
-	""1""
-)
-	zchar	// trailing space 
-	  {
-
-u8 
-repeatCount
-@calculatedFrom( ""it's"" 
-)
-,
-
-Packet
-@lengthOf( // @lengthOf(
-_x
-
-    )
-    //
-
-	,}
-
-, 
-@calculatedFrom(
-    ""// no comment""
-
-    )
-    repeat
-    A
-
-    { 
-int32 crc@calculatedFrom(	""// no comment"")  `{ , }`, 
-    //x
-    repeat u64	//x
-  	packetx  `// not a comment`
-
-,
-    }, i16  packetx @calculatedFrom(""abc"" )
-
-`" ++ [28040; 24687; 31867; 22411]%N ++ runes_of_ascii "`
-    , 
-    // packet A { u8 x, }
-  u16 Foo @calculatedFrom( ""CRC32"" )
-    ,	//
-    } 
-options
-    {
-	Header
-    //	t
-  	// c
-	=  '\x00';  // " ++ [27880; 37322]%N ++ runes_of_ascii "
-      MetaDataX// @lengthOf(
-    = 007; 
-lengthOf	=	false  ;
-As 
-='\x00' 
-} 	 /// triple
-")).
-Eval vm_compute in ("<<<M133>>>" ++ check (runes_of_ascii "root packet x_y_z { match Z9_ as  u{ 255:pack , 255 : u128
-, 007 : float ""\n"" :options1 , [	""" ++ [28040; 24687]%N ++ runes_of_ascii """ , 1 ]
-: Z9_""" ++ [28040; 24687]%N ++ runes_of_ascii """:	chars
-, }, u8 _x @calculatedFrom(
-    // a // b
-    """ ++ [28040; 24687]%N ++ runes_of_ascii """ )`say ""hi""` ,@tag( 3 ) match a1 as msg_type { [ ""\n"" // a // b
-, 255//x
-, 0 ] :crc	,} , }
-root packet o
-{  match tag as _x
-    { 007 :
-    x ,	10 :charz,
-""{,}""
-:body	,""" ++ [233]%N ++ runes_of_ascii "t" ++ [233]%N ++ runes_of_ascii """ : len
-""" ++ [128512]%N ++ runes_of_ascii """
-    :
-    u , }
-    ,
-    u64 u @calculatedFrom( ""x y""
-// c
-// " ++ [27880; 37322]%N ++ runes_of_ascii "
-)
-`it's`, @lengthOf( trueish ) repeat // packet A { u8 x, }
-uint8 u8x
-`" ++ [28040; 24687; 31867; 22411]%N ++ runes_of_ascii "` // a // b
-, @calculatedFrom(	""\n"" )
-    @rightPad() @leftPad (
-    '\x00')
-    repeat uint32 float, @lengthOf(	A )
-    @tag(//	t
-0123456789 ) @rightPad ( ' '
-    ) zchar[ 10	]
-    // " ++ [128512]%N ++ runes_of_ascii " emoji
-    o// packet A { u8 x, }
-,
-    uint8x
-    @calculatedFrom( ""a\\"" // " ++ [27880; 37322]%N ++ runes_of_ascii "
-) `
-`
-,body
-, repeat //	t
-char[10 ]
-    string_ `tab	here`
-    , } root packet
-    roots {  } packet u {@calculatedFrom(	""" ++ [128512]%N ++ runes_of_ascii """ )	f64 Logon// `tick` ""quote"" 'q'
-@calculatedFrom( ""1""
-)
-    `a\` ,  int16 trueish `line1
-line2`
-,//
-zchar[  0123456789 ]
-    // a // b
-    BodyLength `two words`, float32 i8i8 @lengthOf( metadata ) `// not a comment`
-, i32 leftPad,	}
-
-")).
-Eval vm_compute in ("<<<M4224>>>" ++ check (runes_of_ascii "root packet Logon {
-    zchar[00] roots @calculatedFrom(""a\""b""),
-}
-
-MetaData int {
-    float roots,
-    char u8x `// not a comment`,
-    uint64 _x,
-    u128 chars `
-    `,
-    i16 leftPad `" ++ [28040; 24687; 31867; 22411]%N ++ runes_of_ascii "`,
-    u8 string_,
-}
-
-packet trueish {
-    /// triple
-    asx {
-        msg_type {
-            repeat string A `" ++ [233]%N ++ runes_of_ascii "`,
-        },
-    },
-    @tag(65535)
-    Packet _x `line1
-    line2`,
-    // packet A { u8 x, }
-    // a // b
-    repeat uint32 x_y_z `two words`,
-    @calculatedFrom(""packet"")
-    i64_ @lengthOf(Logon),
-    @rightPad('\x00')
-    match msg_type as Foo {
-        [10, ""{,}"", ""a	b"", ""abc""] : u128,
-        ""// no comment"" : lengthOf,
-        ""a\""b"" : len,
-        ""\n"" : x_y_z,
-    },
-    repeat int32 asx `say ""hi""`,
-    @rightPad()
-    @tag(00)
-    @rightPad(' ')
-    char[10] crc @lengthOf(metadata) `
-    `,
-    @lengthOf(msg_type)
-    char[] charz @lengthOf(Pad) `crlf
-    line`,
-    zchar[65535] a1 @calculatedFrom(""a\\""),
-    char[42] charz,
-}
-
-root packet BodyLength {
-    @tag(3)
-    @lengthOf(Header)
-    len @calculatedFrom("""") `crlf
-    line`,
-}")).
-Eval vm_compute in ("<<<M658>>>" ++ check (runes_of_ascii "// @lengthOf(
-packet BodyLength { char T
-    , } root packet
-A
-{
-repeat len `say ""hi""` ,repeat Pad{ repeat char[] // " ++ [128512]%N ++ runes_of_ascii " emoji
-stringy  , repeat
-rootA
-{ uint64
-Foo @lengthOf( // `tick` ""quote"" 'q'
-options1 ) // @lengthOf(
-`it's` ,
-//x
-/// triple
-zchar { zchar[
-42] Z9_
-,
-    repeat o  i8i8 ,
-uint8 x `it's` ,
-    rootA Foo
-`{ , }`, }
-, }
-,
-metadata
-@calculatedFrom( ""a	b"" )
-, } ,  @tag(	1) string
-    // c
-    u `doc`
-    //	t
-    ,  u
-@calculatedFrom(
-    ""it's"")
-    ``,char[ 7 ]	packetx@lengthOf( A ) `{ , }`	, string _x `
-` ,
-float32 _x , repeat char[ 42 ] rootA
-`doc` ,} MetaData matchKey {
-zchar[ 0123456789
-    ]falsey
-    `` , }  packet Logon
-{ @lengthOf( zchar ) match leftPad as falsey
-    {
-3 : Packet , 007 :// `tick` ""quote"" 'q'
-zchar
-1 : // @lengthOf(
-float ,	""it's"" :
-body""CRC32""
-    // " ++ [128512]%N ++ runes_of_ascii " emoji
-    :  body } , @calculatedFrom(""{,}"") zchar[
-    1 ] i8i8 @lengthOf(
-uint8x  )
-,
-zchar[ 00]
-    // `tick` ""quote"" 'q'
-    a1
-, uint64
-    u , string Packet @calculatedFrom( ""packet"" ), }
-")).
-Eval vm_compute in ("<<<M411>>>" ++ check (runes_of_ascii "packet zchar { @calculatedFrom( ""a\\""
-// @lengthOf(
-// " ++ [27880; 37322]%N ++ runes_of_ascii "
-)f32a`{ , }` , match // c
-calculatedFrom as pack {""" ++ [233]%N ++ runes_of_ascii "t" ++ [233]%N ++ runes_of_ascii """
-    // a // b
-    :As , 0123456789
-:
-i8i8 ,4294967296	:
-A , } ,
-//x
-// trailing space 
-i32
-    packetx `say ""hi""`, repeatCount
-// `tick` ""quote"" 'q'
-// " ++ [128512]%N ++ runes_of_ascii " emoji
-{
-//
-/// triple
-repeat falsey {rootA // c
-{ T Logon	`a\`,
-}
-,char[
-    007]
-// trailing space 
-// " ++ [27880; 37322]%N ++ runes_of_ascii "
-A // trailing space 
-, } , // trailing space 
-} ,
-repeat
-// " ++ [128512]%N ++ runes_of_ascii " emoji
-// " ++ [27880; 37322]%N ++ runes_of_ascii "
-Packet
-    {  int64
-    matchKey
-    ,
-}
-, // c
-string _x `crlf
-line` ,float
-    { repeat
-u8x {metadata@calculatedFrom( //
-""a\\"" )`it's`
-    ,
-}
-    , },
-@lengthOf( o
-)
-    @tag(
-00  ) @tag( 0123456789
-    )
-    // a // b
-    falsey {repeat asx `crlf
-line`, repeat // a // b
-o , }  ,@tag( 00)
-    match
-// `tick` ""quote"" 'q'
-// `tick` ""quote"" 'q'
-float
-    as Foo
-    { """ ++ [128512]%N ++ runes_of_ascii """ : tag , } , @tag(
-255 )	repeat i8i8 ,}// `tick` ""quote"" 'q'
-packet As { i8 a1@lengthOf( options1/// triple
-)	,}")).
-Eval vm_compute in ("<<<M258>>>" ++ check (runes_of_ascii "
-packet leftPad
-    {}	packet u{@leftPad
-( ' ' )
-    char[65535 ]leftPad, int8
-packetx ,
-string stringy `crlf
-line` ,@leftPad
-( // @lengthOf(
-' ' // " ++ [27880; 37322]%N ++ runes_of_ascii "
-) // " ++ [128512]%N ++ runes_of_ascii " emoji
-i64 x
-@lengthOf( u )
-    `" ++ [28040; 24687; 31867; 22411]%N ++ runes_of_ascii "`	,@lengthOf( pack )
-// a // b
-//
-u64 asx  @lengthOf( repeatCount )
-    `u8 x,` , o A ,}	root packet charz{
-char[]repeatCount
-    //x
-    @lengthOf( tag ) ``
-,
-    repeat pack	`a\` , @calculatedFrom( ""// no comment""
-    //x
-    ) T { string rootA // " ++ [27880; 37322]%N ++ runes_of_ascii "
-@calculatedFrom(""{,}"" )  ,
-    }, repeat As
-    Foo
-, char[
-3] trueish ,@calculatedFrom(""""
-    )@lengthOf(
-metadata)@leftPad ('0'
-/// triple
-//x
-) repeat u64 float `{ , }`
-// " ++ [27880; 37322]%N ++ runes_of_ascii "
-// " ++ [128512]%N ++ runes_of_ascii " emoji
-, stringy {
-// packet A { u8 x, }
-// c
-metadata
-    { u8 f32a `two words` , repeat  char[ 007 ] f32a
-`
-` ,
-    } ,  u32 asx @calculatedFrom(""" ++ [233]%N ++ runes_of_ascii "t" ++ [233]%N ++ runes_of_ascii """
-) ,float64 i8i8 ,//x
-} ,
-// c
-// " ++ [27880; 37322]%N ++ runes_of_ascii "
-match lengthOf as zchar
-    /// triple
-    {
-    00 :o,  } , }")).
-Eval vm_compute in ("<<<M895>>>" ++ check (runes_of_ascii "options { Foo =
-    // trailing space 
-    ""\" ++ [233]%N ++ runes_of_ascii """roots = ""`tick`""
-// trailing space 
-//	t
-; crc = ""packet"" ; falsey= // a // b
-1
-float = u32	; } packet
-options1	{
-    match Header as Packet { [ ""abc""
-    ] : Header , ""`tick`"" : i64_, [ 7 ,
-/// triple
-//x
-"""", 3 ] : Z9_	,
-    [ ""// no comment"" ,
-""x y"" , """ ++ [28040; 24687]%N ++ runes_of_ascii """ , 1, ""a	b"" ] : x_y_z
-,""a\""b"" :float// c
-} , // @lengthOf(
-i8i8 _x,  @rightPad ( '\x00')	zchar[
-0
-    ] string_ ,}packet u8x {@lengthOf(  packetx) char[ 42
-    ]
-    // `tick` ""quote"" 'q'
-    _x,
-    f64 matchKey `it's`
-, match repeatCount
-as
-roots
-    {
-// packet A { u8 x, }
-// " ++ [27880; 37322]%N ++ runes_of_ascii "
-[
-""CRC32""
-,
-""" ++ [128512]%N ++ runes_of_ascii """
-    ] : i8i8 ,} ,
-    // " ++ [27880; 37322]%N ++ runes_of_ascii "
-    @lengthOf(
-len ) @rightPad
-( ' '	) u stringy	`say ""hi""` ,// @lengthOf(
-repeat char[ 7  ] pack	`" ++ [28040; 24687; 31867; 22411]%N ++ runes_of_ascii "`,	@tag( 42	) string u8x`// not a comment`
-    , } root packet As
-    {	int32 x
-@calculatedFrom( ""\n"" ) , }
-")).
-Eval vm_compute in ("<<<M4064>>>" ++ check (runes_of_ascii "packet body {
-    @tag(255)
-    int @lengthOf(matchKey) `tab	here`,
-}
-
-packet Z9_ {
-    @lengthOf(As)
-    repeat _x lengthOf,
-    @tag(0123456789)
-    repeat uint8x,
-    int64 stringy @calculatedFrom(""{,}"") `crlf
-    line`,//x
-    @lengthOf(i8i8)
-    @tag(4294967296)
-    @rightPad('0')
-    char[3] int,
-}
-
-packet roots {
-}
-
-root packet body {
-    match f32a as u8x {
-        //x
-        ""\" ++ [233]%N ++ runes_of_ascii """ : chars,
-    },
-    @tag(255)
-    @tag(00)
-    trueish Header,
-    @tag(1)
-    match A as falsey {
-        [""a\""b""] : i64_,
-        // trailing space 
-        [7, 4294967296, 007, ""packet"", ""{,}""] : u128,
-        0 : string_,
-        007 : x,
-        1 : As,
-    },
-    @lengthOf(options1)
-    repeat u16 Header ``,
-    string trueish,// " ++ [128512]%N ++ runes_of_ascii " emoji
-    @lengthOf(len)
-    x repeatCount `crlf
-    line`,
-}")).
-Eval vm_compute in ("<<<M3863>>>" ++ check (runes_of_ascii "packet x {
-    u16 msg_type @lengthOf(BodyLength),// trailing space 
-    @calculatedFrom(""" ++ [28040; 24687]%N ++ runes_of_ascii """)
-    repeat Header {
-        char[0123456789] repeatCount,
-        zchar[7] i64_ @calculatedFrom(""" ++ [28040; 24687]%N ++ runes_of_ascii """),
-        repeat T zchar `tab	here`,
-    },
-    uint8 body `doc`,
-    repeat char[] i8i8,
-    uint32 f32a @calculatedFrom(""`tick`""),
-    @rightPad(' ')
-    match rootA as matchKey {
-        42 : lengthOf,
-        // `tick` ""quote"" 'q'
-        ""// no comment"" : Z9_,
-        [1, ""a\\""] : len,
-        10 : trueish,
-    },
-    f64 Logon @lengthOf(T) `crlf
-        line`,
-    match float as i8i8 {
-        ""\n"" : i64_,
-    },
-    @lengthOf(u8x)
-    @leftPad('\x00')
-    char[007] body `it's`,
-    @leftPad('0')
-    string crc @calculatedFrom(""a\\"") `" ++ [28040; 24687; 31867; 22411]%N ++ runes_of_ascii "`,
-}")).
-Eval vm_compute in ("<<<M3753>>>" ++ check (runes_of_ascii "root packet msg_type {
-    repeat A {
-        repeat a1 {
-            repeat len,
-        },
-        pack string_,
-        zchar[7] msg_type @lengthOf(u),
-    },
-    repeat zchar[00] tag,
-    u64 o @calculatedFrom(""a\\""),
-}
-
-packet charz {
-    @tag(0)
-    // c
-    repeat u {
-        char[007] T,
-    },
-    repeatCount @calculatedFrom(""\n""),
-}
-
-packet trueish {
-    @calculatedFrom(""a\\"")
-    @rightPad('0')
-    @lengthOf(BodyLength)
-    string asx @lengthOf(A),
-    @rightPad(' ')
-    match pack as leftPad {
-        [1] : body,
-        [""a	b""] : msg_type,
-        // `tick` ""quote"" 'q'
-        10 : calculatedFrom,
-        7 : packetx,
-        """ ++ [233]%N ++ runes_of_ascii "t" ++ [233]%N ++ runes_of_ascii """ : roots,
-    },
-    @calculatedFrom(""1"")
-    repeat roots u8x,
-}")).
-Eval vm_compute in ("<<<M274>>>" ++ check (runes_of_ascii "packet  int  { @calculatedFrom( """ ++ [28040; 24687]%N ++ runes_of_ascii """  )
-@tag(
-    // `tick` ""quote"" 'q'
-    007
-    ) options1 @calculatedFrom( ""CRC32"" ) `tab	here`
-, @lengthOf(
-As )
-    x x_y_z , repeat x
-{ i64 Z9_,
-zchar[
-    // c
-    007 ] body
-//	t
-// a // b
-@lengthOf( uint8x
-    )
-    // c
-    , f64  metadata @calculatedFrom( ""`tick`""	)
-    `tab	here`, }	, } packet msg_type {
-    repeat
-// trailing space 
-// c
-zchar[255 ]A, int64 f32a ,// " ++ [128512]%N ++ runes_of_ascii " emoji
-Pad
-@lengthOf( falsey
-)
-,
-match
-    falsey
-as
-x_y_z {
-7: // `tick` ""quote"" 'q'
-len
-,}
-/// triple
-// c
-, string // " ++ [27880; 37322]%N ++ runes_of_ascii "
-uint8x
-    `a\`,string rootA
-//x
-// a // b
-@lengthOf( int	) ,	}	root
-/// triple
-// `tick` ""quote"" 'q'
-packet pack { crc i64_ , }
-")).
-Eval vm_compute in ("<<<M4471>>>" ++ check (runes_of_ascii "packet BodyLength {
-    char[255] _x,
-    match body as repeatCount {
-        ""{,}"" : len,
-    },
-    char[0] Logon @calculatedFrom(""{,}""),
-    @rightPad()
-    i64_ @calculatedFrom(""it's"") `crlf
-    line`,
-}
-
-packet Header {
-    match As as chars {
-        7 : packetx,
-        [""it's""] : u128,
-        [4294967296, ""{,}""] : f32a,
-    },
-}
-
-packet asx {
-    @calculatedFrom(""1"")
-    a1,
-    //
-    //x
-    match x_y_z as crc {
-        // `tick` ""quote"" 'q'
-        // `tick` ""quote"" 'q'
-        ""CRC32"" : As,
-        7 : o,
-        //x
-    },
-    match msg_type as Packet {
-        """ ++ [233]%N ++ runes_of_ascii "t" ++ [233]%N ++ runes_of_ascii """ : metadata,
-    },
-    repeat u8 i64_,// a // b
-}")).
-Eval vm_compute in ("<<<M4539>>>" ++ check (runes_of_ascii "packet metadata {
-    f64 float `crlf
-        line`,
-    i32 asx @calculatedFrom(""`tick`""),
-    /// triple
-    // c
-    A,
-}
-
-root packet zchar {
-    // trailing space 
-    // packet A { u8 x, }
-    match matchKey as roots {
-        ""a\""b"" : zchar,
-        ""`tick`"" : int,
-        ""\n"" : packetx,
-        0 : Z9_,
-    },
-    int32 a1,
-    @tag(42)
-    @rightPad('0')
-    @tag(65535)
-    char[00] calculatedFrom,
-    packetx @lengthOf(options1),
-}
-
-root packet body {
-    match f32a as msg_type {
-        [42] : matchKey,
-        3 : rootA,
-        [00] : packetx,
-        10 : falsey,
-    },
-}
-
-options {
-}")).
-Eval vm_compute in ("<<<M4290>>>" ++ check (runes_of_ascii "
-
-  packet
-T
-{
-i8
-MetaDataX  ,
-	repeat
-	x	{
-    int32  lengthOf
-, char[ 007 ]  repeatCount`" ++ [233]%N ++ runes_of_ascii "` ,string// " ++ [27880; 37322]%N ++ runes_of_ascii "
-  	Header @lengthOf(len
-
-)
-
-,  } ,
-	@rightPad
-    (' '
-    )
-	@tag( 3 )@tag(
-00
-) char[00]
-    rootA
-
-    ,
-
-f64
-
-string_ ,@calculatedFrom(  ""it's""
-
-    // " ++ [27880; 37322]%N ++ runes_of_ascii "
-	//
-
-  )char[] falsey ``
-, repeat
-
-a1  { i64_  u128  ,
-	zchar[
-    4294967296 ] 
-i8i8
-    , Logon @lengthOf(	packetx
-// trailing space 
-
-)
-,
-}
-    ,	lengthOf float
-,  @calculatedFrom( ""{,}""	)u
-
-@lengthOf( rootA
-
-) `say ""hi""` 
-        //
-
-//x
-    ,
-    zchar[ 
-	//	t
-
-10  ]
-metadata	``
-
-,} options
-	{}	//	t
-")).
-Eval vm_compute in ("<<<M4405>>>" ++ check (runes_of_ascii "  // top
-options  
-  // c0
-	{
-charz// c2
-=  // c3a
-	// c3b
-  	f64 	 // c4a
-	// c4b
-	; // c5a
-	// c5b
-    metadata	= // c7
-7 	 // c8a
-// c8b
-    	;	// c9a
-    	// c9b
-      } 	 // c10
-
-options 
-    // c11
-  	{ 
-  // c12
-u128// c13
-  =
-	    // c14
-  10  // c15
-  options1 // c16
-  =// c17
-true 
-      // c18
-;  zchar // c20
-
-	= 
-  // c21
-
-uint16 
-// c22
-	;
-lengthOf 
-	    // c24
-
-= 
-	    // c25
-    true 
-  // c26
-  ;
-	    // c27
-    	} // c28a
-    // c28b
-  options	// c29
-    {
-// c30
-len
-= 	 // c32
-1 
-	    // c33
-} 
-	    // c34")).
-Eval vm_compute in ("<<<M1036>>>" ++ check (runes_of_ascii "packet
-    packetx
-{@calculatedFrom( ""packet""
-)
-    // " ++ [27880; 37322]%N ++ runes_of_ascii "
-    @calculatedFrom( ""// no comment"" ) @leftPad /// triple
-(	'0') //	t
-Z9_ T
-, leftPad uint8x ,@tag( 4294967296
-    //
-    ) leftPad //
-{ roots { char options1 , }, match Pad
-    as int{ [
-10 ]
-    :roots//	t
-,
-[	""CRC32"" , ""1"" , 3  ,7
-    ,// " ++ [27880; 37322]%N ++ runes_of_ascii "
-0
-, 0,
-    /// triple
-    ""CRC32"" , 7
-// `tick` ""quote"" 'q'
-// a // b
-]	:Packet
-,	1
-    : tag ,1:
-    matchKey [	42]:
-_x }
-, repeat	tag
-// packet A { u8 x, }
-// " ++ [128512]%N ++ runes_of_ascii " emoji
-{ metadata `" ++ [233]%N ++ runes_of_ascii "`
-,  }, //	t
-u
-    `a\` , } ,  }
-")).
-Eval vm_compute in ("<<<M648>>>" ++ check (runes_of_ascii "MetaData i8i8 { char[0123456789
-    ]
-    body `doc`, // c
-} packet uint8x{pack { char u `crlf
-line`
-, float , zchar[ 007] //	t
-A ,} , char[]
-    /// triple
-    calculatedFrom `
-` , char[
-    42 ] matchKey @calculatedFrom(
-//
-// " ++ [27880; 37322]%N ++ runes_of_ascii "
-""a\\"")`` , }  root  packet int { @rightPad (
-'0'// packet A { u8 x, }
-) Pad  { match zchar as asx {
-    [""a	b"" , 42 ] :Logon//
-} ,
-Packet
-    {
-    zchar[ 4294967296 ]
-    A ,}
-//	t
-//
-, match x as float {  ""x y""	: o
-    // a // b
-    ,
-    1	: calculatedFrom}, } ,}
-//
-")).
-Eval vm_compute in ("<<<M1117>>>" ++ check (runes_of_ascii "options {T = zchar[ 0123456789
-    ] }root packet Pad { match repeatCount  as pack{[ 3 ,
-    /// triple
-    255, ""// no comment""
-, """ ++ [28040; 24687]%N ++ runes_of_ascii """ , ""it's"",
-255
-, ""it's"" ]:
-packetx
-    // `tick` ""quote"" 'q'
-    ,
-} ,
-@calculatedFrom( ""CRC32""
-) @lengthOf( Header)	@lengthOf( u ) match As
-    as  calculatedFrom// c
-{ [	255, 00]
-// trailing space 
-/// triple
-:// " ++ [128512]%N ++ runes_of_ascii " emoji
-Z9_ ,
-[""a	b""]:// packet A { u8 x, }
-Header}
-// trailing space 
-// " ++ [128512]%N ++ runes_of_ascii " emoji
-,  x_y_z
-,
-    // packet A { u8 x, }
-    }
-")).
-Eval vm_compute in ("<<<M508>>>" ++ check (runes_of_ascii "packet Pad {
-roots
-    int , @lengthOf(string_	) repeat char[] x, @calculatedFrom( ""CRC32""
-) u16 A	@lengthOf(  string_ ) `line1
-line2` , i32 zchar
-// `tick` ""quote"" 'q'
-// " ++ [27880; 37322]%N ++ runes_of_ascii "
-`say ""hi""`,match roots as i64_ /// triple
-{
-[ 4294967296,  ""abc"", ""x y"",// packet A { u8 x, }
-""a	b"" ,
-""a	b""] : Z9_ [ //x
-""// no comment"" , ""\n"" , 42 ,
-1 , ""\" ++ [233]%N ++ runes_of_ascii """
-,1 , 7
-    , 3
-]:  Header  ,[ //x
-""" ++ [128512]%N ++ runes_of_ascii """ , ""\" ++ [233]%N ++ runes_of_ascii """ ,
-""\" ++ [233]%N ++ runes_of_ascii """
-,00
-    ,
-    """ ++ [233]%N ++ runes_of_ascii "t" ++ [233]%N ++ runes_of_ascii """
-, 1
-, 00 ,	3 ] :	A , }, char[ 10
-] a1
-    ,	}
-
-")).
-Eval vm_compute in ("<<<M4233>>>" ++ check (runes_of_ascii "// " ++ [128512]%N ++ runes_of_ascii " emoji
-packet int {
-}
-
-options {
-    string_ = true
-    Z9_ = '\x00';
-    uint8x = false
-}
-
-packet body {
-    int16 Foo,
-    repeat string roots `
-    `,//	t
-    stringy a1 `tab	here`,
-    int8 repeatCount,
-    @lengthOf(chars)
-    match _x as repeatCount {
-        ""CRC32"" : f32a,
-        [0123456789, ""it's""] : Logon,
-        [10, ""// no comment"", ""a\""b""] : trueish,
-        [0] : trueish,
-        0 : BodyLength,
-    },
-}/// triple")).
-Eval vm_compute in ("<<<M4575>>>" ++ check (runes_of_ascii "// top
-packet MDSnapshotZZ {
-    // c2
-    u8 a,// c5
-}
-
-packet OrderACK {
-    // c9
-    u16 b,
-}
-
-// c13
-packet HTTPServerInfo {
-    // c16a
-    // c16b
-    string s,
-}// c20
-
-root packet FIXMsg {
-    // c24a
-    // c24b
-    u8 KType,// c27
-    MDSnapshotZZ,
-    repeat OrderACK,// c32a
-    // c32b
-    match KType as Body {
-        // c37a
-        // c37b
-        1 : HTTPServerInfo,
-        2 : OrderACK,
-    },
-}// c48")).
-Eval vm_compute in ("<<<M438>>>" ++ check (runes_of_ascii "packet Packet {
-@calculatedFrom( ""a	b"" ) int16 int
-    @lengthOf(
-// @lengthOf(
-// packet A { u8 x, }
-rootA ) ,Foo{ repeat string int
-    // `tick` ""quote"" 'q'
-    ,
-    rootA packetx
-    ,match
-    uint8x as Pad{ 1	:
-    // packet A { u8 x, }
-    Foo , 3	:
-chars , 255
-:
-//
-// `tick` ""quote"" 'q'
-charz ""x y""
-: lengthOf , [
-    4294967296 ,	""" ++ [233]%N ++ runes_of_ascii "t" ++ [233]%N ++ runes_of_ascii """//x
-] : crc } //x
-,	} //	t
-,
-    string
-msg_type , }
-
-")).
-Eval vm_compute in ("<<<M1251>>>" ++ check (runes_of_ascii "
-packet
-T {
-uint64
-rootA
-    `it's`
-    ,
-// a // b
-// packet A { u8 x, }
-@tag( 255
-    )
-f32a
-{
-string
-MetaDataX
-`" ++ [28040; 24687; 31867; 22411]%N ++ runes_of_ascii "`
-, } ,uint8x
-    //x
-    @lengthOf( u8x ),
-match
-x
-    // a // b
-    as As	{4294967296	: trueish , ""{,}"": Packet , 1  :float
-,  007 : repeatCount , //	t
-}, @leftPad (  '0' ) @lengthOf( crc ) int16 // trailing space 
-u128 , calculatedFrom
-asx
-`u8 x,` ,
-}
-")).
-Eval vm_compute in ("<<<M454>>>" ++ check (runes_of_ascii "//	t
-packet Header
-    { @tag( 0 ) float64
-    //
-    u128 , @tag(65535
-    ) pack `line1
-line2`
-,
-    @tag(1
-    // @lengthOf(
-    )trueish	{
-// " ++ [128512]%N ++ runes_of_ascii " emoji
-// c
-repeat u `it's`  ,} , @lengthOf( repeatCount )	@calculatedFrom(""it's"" )
-    @lengthOf(
-a1 ) string_@lengthOf( string_ ) , }
-MetaData leftPad	{ u8 pack	, // `tick` ""quote"" 'q'
-} packet msg_type { Z9_,
-}")).
-Eval vm_compute in ("<<<M1322>>>" ++ check (runes_of_ascii "packet
-    options1 { repeat
-zchar[ 7
-]
-i8i8 ,_x { zchar[ 65535 ]i8i8 @lengthOf( uint8x ) ,match x_y_z as lengthOf
-    { //x
-[ 00// " ++ [27880; 37322]%N ++ runes_of_ascii "
-, 1// " ++ [27880; 37322]%N ++ runes_of_ascii "
-, 10 ,  ""\" ++ [233]%N ++ runes_of_ascii """ , 42 , 00
-] : Pad, [4294967296 ] : asx
-    0123456789:
-x_y_z ,
-}// trailing space 
-, zchar[
-0]float
-    ,}
-    , int16
-    T @lengthOf( charz ) `` , }MetaData pack {int64 //	t
-chars
-,  }")).
-Eval vm_compute in ("<<<M4156>>>" ++ check (runes_of_ascii "options {
-}// @lengthOf(
-
-root packet trueish {
-    f32 Logon @calculatedFrom(""`tick`"") `
-        `,
-    zchar[0123456789] As @calculatedFrom(""a	b""),
-    chars,
-    char[] u128 @lengthOf(a1) `
-        `,
-    @tag(255)
-    repeat asx,
-}
-
-MetaData lengthOf {
-    _x tag,
-    float32 zchar,
-}
-
-options {
-    As = i64;
-}
-
-MetaData len {
-}")).
-Eval vm_compute in ("<<<M1252>>>" ++ check (runes_of_ascii "MetaData packetx	{
-    MetaDataX zchar , calculatedFrom i64_ ,char[] BodyLength , zchar[ 4294967296 // packet A { u8 x, }
-] MetaDataX``
-, int BodyLength `
-`, i64 i64_ , }
-options
-    { u8x= u32 ; } MetaData rootA{
-zchar[ 4294967296 ] roots
-`doc` ,
-char[ 0123456789 ]
-    // a // b
-    uint8x `" ++ [233]%N ++ runes_of_ascii "`
-    , Z9_ len	`u8 x,`	, }
-")).
-Eval vm_compute in ("<<<M2018>>>" ++ check (runes_of_ascii "MetaData
-    u { }  options {
-// c
-// @lengthOf(
-float = int8 ;rootA =false ; As =	int16 // `tick` ""quote"" 'q'
-repeatCount
-    // trailing space 
-    =
-    int16
-; u8x =
-    //	t
-    '\x00' ; } options	{
-    repeatCount
-= 0
-u128
-    //
-    packet false ; i64_
-// trailing space 
-// `tick` ""quote"" 'q'
-= '0' ; //	t
-}
-")).
-Eval vm_compute in ("<<<M1956>>>" ++ check (runes_of_ascii "MetaData
-    u { }  options {
-// c
-// @lengthOf(
-float = int8 ;rootA =false ; As =	int16 // `tick` ""quote"" 'q'
-repeatCount
-    // trailing space 
-    =
-    int16
-; ; u8x =
-    //	t
-    '\x00' ; } options	{
-    repeatCount
-= 0
-u128
-    //
-    = false ; i64_
-// trailing space 
-// `tick` ""quote"" 'q'
-= '0' ; //	t
-}
-")).
-Eval vm_compute in ("<<<M2067>>>" ++ check (runes_of_ascii "MetaData
-    u { }  options {
-// c
-// @lengthOf(
-float = int8 ;rootA =false ; As =	int16 // `tick` ""quote"" 'q'
-repeatCount
-    // trailing space 
-    =
-    int16
-; u8x =
-    //	t
-    '\x00' ; } options	{
-    `repeatCount
-= 0
-u128
-    //
-    = false ; i64_
-// trailing space 
-// `tick` ""quote"" 'q'
-= '0' ; //	t
-}
-")).
-Eval vm_compute in ("<<<M1977>>>" ++ check (runes_of_ascii "MetaData
-    u { }  options {
-// c
-// @lengthOf(
-float = int8 ;rootA =false ; As =	int16 // `tick` ""quote"" 'q'
-repeatCount
-    // trailing space 
-    =
-    int16
-; u8x =
-    //	t
-    '\x00' } ; options	{
-    repeatCount
-= 0
-u128
-    //
-    = false ; i64_
-// trailing space 
-// `tick` ""quote"" 'q'
-= '0' ; //	t
-}
-")).
-Eval vm_compute in ("<<<M1975>>>" ++ check (runes_of_ascii "MetaData
-    u { }  options {
-// c
-// @lengthOf(
-float = int8 ;rootA =false ; As =	int16 // `tick` ""quote"" 'q'
-repeatCount
-    // trailing space 
-    =
-    int16
-; u8x =
-    //	t
-    '\x00'  } options	{
-    repeatCount
-= 0
-u128
-    //
-    = false ; i64_
-// trailing space 
-// `tick` ""quote"" 'q'
-= '0' ; //	t
-}
-")).
-Eval vm_compute in ("<<<M1950>>>" ++ check (runes_of_ascii "MetaData
-    u { }  options {
-// c
-// @lengthOf(
-float = int8 ;rootA =false ; As =	int16 // `tick` ""quote"" 'q'
-repeatCount
-    // trailing space 
-    =
-    
-; u8x =
-    //	t
-    '\x00' ; } options	{
-    repeatCount
-= 0
-u128
-    //
-    = false ; i64_
-// trailing space 
-// `tick` ""quote"" 'q'
-= '0' ; //	t
-}
-")).
-Eval vm_compute in ("<<<M1292>>>" ++ check (runes_of_ascii "//	t
-packet crc { } MetaData len  { stringy	body `line1
-line2`	, u16 crc , //
-zchar[007 ] Z9_ , Header T,
-} packet stringy //	t
-{	@lengthOf( u8x )match A as
-// @lengthOf(
-/// triple
-BodyLength
-    {
-""{,}"" : o // " ++ [128512]%N ++ runes_of_ascii " emoji
-} ,repeat
-    //
-    zchar[
-255 ]packetx , A `" ++ [233]%N ++ runes_of_ascii "` , BodyLength	msg_type
-    ,	}
-")).
-Eval vm_compute in ("<<<M4565>>>" ++ check (runes_of_ascii "
-packet f32a
-    {  } MetaData
-	x{
-	BodyLength
-
-    zchar
-,	// @lengthOf(
-  }
-
-    packet	metadata	{ @tag(
-7
-)@lengthOf( uint8x )body
-{u8	Z9_ @calculatedFrom(/// triple
-    	""it's"" 
-)
-	`u8 x,`
-// @lengthOf(
-      ,
-}  ,	float32 falsey 
-@lengthOf( 
-u 	 //	t
-		) `line1
-line2` ,
-	}
-")).
-Eval vm_compute in ("<<<M3209>>>" ++ check (runes_of_ascii "// top
-packet
-    // c0
-metadata
-    // c1
-{
-    // c2
-Logon
-    // c3
-{
-    // c4
-A
-    // c5
-`" ++ [28040; 24687; 31867; 22411]%N ++ runes_of_ascii "`
-    // c6
-,
-    // c7
-tag
-    // c8
-o
-    // c9
-,
-    // c10
-}
-    // c11
-,
-    // c12
-zchar
-    // c13
-len
-    // c14
-`// not a comment`
-    // c15
-,
+FixedStringPadFromLeft // c14
+= true
     // c16
-}
+;
     // c17
+FixedStringPadChar
+    // c18
+= // c19
+' ' ;
+    // c21
+} // c22a
+  // c22b
+packet // c23a
+  // c23b
+Trade { zchar[ 2 // c27a
+  // c27b
+] Side2 , // c30a
+  // c30b
+i8
+    // c31
+seqNo , } // c34a
+  // c34b
+packet
+    // c35
+Party { // c37a
+  // c37b
+uint32
+    // c38
+price
+    // c39
+,
+    // c40
+}
+    // c41
+packet // c42
+Ack // c43
+{ @rightPad
+    // c45
+( '\x00' // c47a
+  // c47b
+) char[
+    // c49
+6 // c50
+] // c51
+x , // c53a
+  // c53b
+repeat
+    // c54
+char[ // c55
+4 ]
+    // c57
+Flags // c58
+, // c59
+zchar[
+    // c60
+9 // c61a
+  // c61b
+]
+    // c62
+f1 , // c64a
+  // c64b
+} // c65a
+  // c65b
+packet
+    // c66
+Cancel
+    // c67
+{ // c68a
+  // c68b
+Ack , // c70a
+  // c70b
+} // c71a
+  // c71b
+packet // c72a
+  // c72b
+Heartbeat // c73a
+  // c73b
+{ // c74
+string
+    // c75
+Px , string // c78a
+  // c78b
+Acct // c79a
+  // c79b
+, // c80
+f64
+    // c81
+Side2 // c82a
+  // c82b
+, // c83a
+  // c83b
+InQty24 // c84a
+  // c84b
+{ i16 // c86a
+  // c86b
+seqNo , repeat i32
+    // c90
+Flags
+    // c91
+, } , } // c95a
+  // c95b
+root packet Logon {
+    // c99
+Trade
+    // c100
+,
+    // c101
+i64 // c102
+venue // c103
+, // c104a
+  // c104b
+u32 // c105
+x
+    // c106
+,
+    // c107
+u8 // c108a
+  // c108b
+seqNo // c109a
+  // c109b
+,
+    // c110
+match seqNo
+    // c112
+as // c113a
+  // c113b
+Body
+    // c114
+{ // c115a
+  // c115b
+[ 1 // c117a
+  // c117b
+, // c118a
+  // c118b
+164 // c119a
+  // c119b
+] :
+    // c121
+Ack // c122a
+  // c122b
+,
+    // c123
+31 :
+    // c125
+Cancel // c126a
+  // c126b
+,
+    // c127
+23
+    // c128
+: // c129a
+  // c129b
+Heartbeat ,
+    // c131
+64 : // c133a
+  // c133b
+Party , // c135
+} ,
+    // c137
+} // c138
 ")).
-Eval vm_compute in ("<<<M4526>>>" ++ check (runes_of_ascii "packet falsey {
-    // a // b
-    char[] x_y_z @lengthOf(u) `two words`,
-}
-
-MetaData Packet {
-    char[3] rootA `line1
-        line2`,
-    string A,
-}
-
-root packet string_ {
-    uint8 calculatedFrom @lengthOf(u128) `line1
-        line2`,
-    char[3] Z9_,
-    float,
-}")).
-Eval vm_compute in ("<<<M73>>>" ++ check (runes_of_ascii "packet MetaDataX
-{ @calculatedFrom(
-    ""CRC32""
-    ) @tag(	255 //
-) zchar[ 007
+Eval vm_compute in ("<<<M320>>>" ++ check (runes_of_ascii "options { lengthOf =
+""CRC32"" ; stringy = uint16;  u8x =float32 ; x_y_z
+    // c
+    =  zchar[ 007]
+repeatCount  = ""a\""b"" ;
 // c
-// trailing space 
-] Logon , } MetaData
-// " ++ [27880; 37322]%N ++ runes_of_ascii "
+//	t
+}
+MetaData trueish { As roots `" ++ [28040; 24687; 31867; 22411]%N ++ runes_of_ascii "`
+, char[ 00 ] Packet// c
+, } root
+packet roots
+{ int8 Logon, body@lengthOf( lengthOf
+) `
+` , @rightPad (	'0' )
+    Packet@calculatedFrom(""x y""
+)`a\` ,
+@lengthOf( T ) match matchKey as _x// trailing space 
+{ """ ++ [128512]%N ++ runes_of_ascii """	:
+stringy ,
+4294967296:  x_y_z ,""\n""
+: leftPad[
+42 , 42
+    , ""it's"" , ""\n"" ,""// no comment""	] : asx ,} , char[
+    10// trailing space 
+]BodyLength ,
+@leftPad (	'0'
+) char[]
+    /// triple
+    Z9_ `crlf
+line`, string falsey
+    , int16 // c
+asx  @calculatedFrom( ""x y"" ) ,u128 Z9_ `it's` ,
+    @rightPad
+// " ++ [128512]%N ++ runes_of_ascii " emoji
+// @lengthOf(
+( '0'
+)Packet {
+    // " ++ [128512]%N ++ runes_of_ascii " emoji
+    int64
+    float ,
+repeat leftPad{
+repeat
+Z9_ {
+    match T
+as lengthOf{ ""`tick`"" :msg_type""1"" : x_y_z , 0 : chars , } ,
+    } , repeat trueish
+    { zchar[
+255 ]
+crc	`doc` , char Logon @lengthOf( _x
+    // " ++ [128512]%N ++ runes_of_ascii " emoji
+    )
+,
+    //
+    a1 `doc`,
+//x
+//	t
+} , match msg_type as zchar { ""it's"" // c
+:
+/// triple
+// packet A { u8 x, }
+body
+, """ ++ [28040; 24687]%N ++ runes_of_ascii """ : // `tick` ""quote"" 'q'
+u,} ,} , } ,
+}
+packet// `tick` ""quote"" 'q'
+As// " ++ [27880; 37322]%N ++ runes_of_ascii "
+{
+@leftPad (
+    // c
+    '\x00' ) @tag( 255
+    )
+    @lengthOf( // `tick` ""quote"" 'q'
+o
+)zchar[ 42 ] string_ @calculatedFrom(
+""a\""b""	)`" ++ [28040; 24687; 31867; 22411]%N ++ runes_of_ascii "`
+, char[] repeatCount//	t
+@lengthOf(
+calculatedFrom) ,metadata @calculatedFrom(
+    ""abc""
+) `two words`
+    ,
 // `tick` ""quote"" 'q'
-u8x{ char[0123456789
+// c
+@lengthOf(matchKey ) match
+packetx as falsey { 007
+: A,""1"" : packetx , //
+7 :charz
+, [ 65535 ]:stringy 65535
+    :a1 [  ""a	b""
+, 1] :
+    Logon
+// a // b
+// " ++ [128512]%N ++ runes_of_ascii " emoji
+}, }")).
+Eval vm_compute in ("<<<M1217>>>" ++ check (runes_of_ascii "packet //x
+u8x
+{ //x
+@tag( 10 )
+    char[7]
+    // trailing space 
+    MetaDataX	, match // c
+Z9_ as Header{""a\\"" :
+    stringy
+, ""// no comment"" : u128 // trailing space 
+, 0123456789
+    :
+matchKey,10	: BodyLength // packet A { u8 x, }
+,	65535: asx
+    // trailing space 
+    , 00 : pack//
+,	}  , @tag(
+255)msg_type `it's` , @lengthOf(
+A ) leftPad
+@lengthOf( Header) `crlf
+line`, @calculatedFrom( ""1""
+//x
+/// triple
+) repeat
+int8 o
+    // " ++ [128512]%N ++ runes_of_ascii " emoji
+    ,  @rightPad(
+'\x00')	string
+pack
+    @calculatedFrom(  ""// no comment""), @lengthOf( Z9_) match	u128
+//	t
+//	t
+as BodyLength { //
+[""\n"" ,
+""a\\"" ]
+: Logon
+,	0 : As , } ,char[] x ,} packet  Packet {
+    @calculatedFrom(""// no comment"" ) x_y_z,
+    @leftPad(
+) zchar[ 65535 ] As
+    @calculatedFrom(
+""1""
+    // " ++ [128512]%N ++ runes_of_ascii " emoji
+    ) `tab	here`  ,  zchar[ 10 ]	f32a ,	@tag(7  ) char[0123456789 ]
+    matchKey
+`say ""hi""`
+    ,
+} root packet string_
+{ // " ++ [27880; 37322]%N ++ runes_of_ascii "
+@tag( // @lengthOf(
+0
+// c
+//	t
+)	asx
+// trailing space 
+// c
+`// not a comment`
+// packet A { u8 x, }
+//
+, zchar[ 65535
+] Header,
+    @tag( 10 ) repeat zchar trueish
+, repeat string // packet A { u8 x, }
+Packet `{ , }`, char[] len
+, lengthOf len `` , packetx @lengthOf(
+    // `tick` ""quote"" 'q'
+    float)`a\`	, @calculatedFrom(
+""" ++ [28040; 24687]%N ++ runes_of_ascii """ ) matchKey  @calculatedFrom( """ ++ [233]%N ++ runes_of_ascii "t" ++ [233]%N ++ runes_of_ascii """ ), @rightPad ( ' '
+// " ++ [128512]%N ++ runes_of_ascii " emoji
+// " ++ [27880; 37322]%N ++ runes_of_ascii "
+)
+// @lengthOf(
+// c
+options1 @calculatedFrom( """ ++ [28040; 24687]%N ++ runes_of_ascii """) , } MetaData Header
+    {
+    Logon  string_ , }
+")).
+Eval vm_compute in ("<<<M266>>>" ++ check (runes_of_ascii "packet asx { Logon{ body
+@calculatedFrom( // trailing space 
+""it's"" ) , // @lengthOf(
+char[ 3] MetaDataX , string
+    leftPad `crlf
+line` , u128@calculatedFrom( ""packet""
+    ),} , } //x
+packet
+x_y_z
+    // packet A { u8 x, }
+    { len {
+    match leftPad// c
+as
+rootA {[007 // trailing space 
+, ""a\\"" , 0123456789,
+    ""\" ++ [233]%N ++ runes_of_ascii """ , ""`tick`"" , ""{,}""
+    ] : falsey , 4294967296:	matchKey
+, // packet A { u8 x, }
+}
+    , int32 //	t
+Z9_ // " ++ [27880; 37322]%N ++ runes_of_ascii "
+,a1
+{
+    x_y_z ,
+    repeat	_x `doc` , char[]falsey
+    @lengthOf(u128) `doc` ,
+    }/// triple
+,match Foo as
+stringy {7 : asx // " ++ [128512]%N ++ runes_of_ascii " emoji
+, ""x y""	:
+    calculatedFrom
+, }
+    , }, @lengthOf(i64_ ) @rightPad ( /// triple
+'\x00'// @lengthOf(
+)@tag( 42 )  char[]
+repeatCount ,
+match	Z9_ //x
+as  int {[//x
+""a	b"" ,	""abc""
+    , 255 , 7 // " ++ [128512]%N ++ runes_of_ascii " emoji
+] :asx
+""1"" : chars , [ ""a	b"", 00 ,4294967296 ] :
+leftPad , [
+65535
+, //x
+0 , //	t
+""abc"" // a // b
+, ""it's"", 007 ,
+    ""x y"" ,
+    255,3 ]  :
+leftPad
+    , [
+    //x
+    4294967296]: u
+,
+// " ++ [128512]%N ++ runes_of_ascii " emoji
+// " ++ [128512]%N ++ runes_of_ascii " emoji
+0123456789 :a1  } ,
+x_y_z  u8x ,  asx{ repeat
+Header float `crlf
+line`
+    , rootA
+charz// " ++ [128512]%N ++ runes_of_ascii " emoji
+`a\` , } , @calculatedFrom(""CRC32"" ) string string_
+,  @tag(
+65535 )  @rightPad ( '\x00' ) u8x	a1 `{ , }` , } options { // c
+float = // " ++ [27880; 37322]%N ++ runes_of_ascii "
+007 }
+root // c
+packet
+metadata {
+}
+")).
+Eval vm_compute in ("<<<M3927>>>" ++ check (runes_of_ascii "packet falsey {
+    int64 BodyLength,
+    @tag(4294967296)
+    // packet A { u8 x, }
+    @leftPad()
+    match _x as Foo {
+        ""\n"" : asx,
+        // `tick` ""quote"" 'q'
+        // `tick` ""quote"" 'q'
+        [
+            ""{,}"", 4294967296, """ ++ [128512]%N ++ runes_of_ascii """, """ ++ [28040; 24687]%N ++ runes_of_ascii """, ""packet"",
+            ""packet"", ""x y"", 7
+        ] : x_y_z,
+    },// `tick` ""quote"" 'q'
+    A len `// not a comment`,
+    //
+    repeat char[] i64_ `crlf
+        line`,
+    // trailing space 
+    // trailing space 
+    repeat char[] u `line1
+        line2`,
+    tag {
+        string metadata,
+    },
+    // " ++ [27880; 37322]%N ++ runes_of_ascii "
+    // " ++ [128512]%N ++ runes_of_ascii " emoji
+    char[3] falsey @lengthOf(leftPad) `crlf
+        line`,
+}
+
+root packet MetaDataX {
+    @lengthOf(u8x)
+    match f32a as Header {
+        [""a\""b"", 255] : u8x,
+        ""packet"" : uint8x,
+        ""1"" : _x,
+    },
+    Packet `doc`,
+    zchar[3] u128 @lengthOf(asx),
+}
+
+MetaData x {
+    // `tick` ""quote"" 'q'
+    // `tick` ""quote"" 'q'
+    As roots,
+    char[10] crc `{ , }`,
+    BodyLength asx `u8 x,`,
+    matchKey i8i8,
+    falsey pack `" ++ [233]%N ++ runes_of_ascii "`,
+    leftPad metadata,
+}
+
+options {
+    pack = 0
+    tag = f32
+    i64_ = ""abc"";
+    // " ++ [128512]%N ++ runes_of_ascii " emoji
+    // " ++ [128512]%N ++ runes_of_ascii " emoji
+    f32a = true;
+}
+
+packet Foo {
+}")).
+Eval vm_compute in ("<<<M4055>>>" ++ check (runes_of_ascii "
+MetaData lengthOf{
+
+    i64 u128 
+	    // trailing space 
+  , uint32 // trailing space 
+      calculatedFrom ,
+char[	00
+]	string_,
+    }
+root	packet
+
+    falsey
+    { char[]	// " ++ [128512]%N ++ runes_of_ascii " emoji
+  len	`line1
+line2`
+, @tag(
+    255  ) uint8x
+
+@lengthOf(
+
+falsey
+),float32 	 // `tick` ""quote"" 'q'
+    len	,
+
+repeat calculatedFrom
+i64_ `say ""hi""` ,
+
+    // c
+
+@rightPad 
+( 
+    // " ++ [27880; 37322]%N ++ runes_of_ascii "
+'0')
+char[
+    10
+
+]  Logon
+
+,
+}	packet rootA  // c
+{ 
+	// " ++ [128512]%N ++ runes_of_ascii " emoji
+
+	// a // b
+x{
+falsey 
+Logon,
+	trueish @calculatedFrom(
+    ""`tick`"" ) `// not a comment`
+,
+uint8x  body
+,
+    } 
+,
+	@calculatedFrom(	""{,}""
+)@calculatedFrom(	""a\\"" )
+
+match//x
+	  f32a
+
+as i8i8  {// " ++ [27880; 37322]%N ++ runes_of_ascii "
+
+	10	: matchKey	,  1
+	:	packetx
+	,  0123456789
+	:
+Header,
+""it's""  :i64_ ,  // packet A { u8 x, }
+
+0 :
+
+pack
+,  },	repeat uint8x
+
+    x_y_z `" ++ [28040; 24687; 31867; 22411]%N ++ runes_of_ascii "`
+,repeat char[  255  ]
+string_
+,
+
+@lengthOf(
+int
+    )
+	calculatedFrom
+	,
+@tag(
+
+    4294967296 )
+
+    u16  packetx 
+@calculatedFrom( """ ++ [28040; 24687]%N ++ runes_of_ascii """)  , 
+u128
+	body
+`doc`	,	}root
+packet tag
+{ 
+    //x
+// `tick` ""quote"" 'q'
+      i32
+A 
+	// @lengthOf(
+
+// packet A { u8 x, }
+,
+
+}
+options	{	}")).
+Eval vm_compute in ("<<<M569>>>" ++ check (runes_of_ascii "root packet//	t
+string_
+{ @lengthOf(
+    // trailing space 
+    matchKey
+    ) repeat string_ matchKey , char[
+007 ] i64_
+    @calculatedFrom(""packet"" ),
+@tag(
+255)
+stringy
+    len
+, @leftPad (
+    '\x00')  i8 matchKey
+, match options1 as As {0123456789 : x
+    , 10 : u8x ,[4294967296 // `tick` ""quote"" 'q'
+] :rootA ,
+65535 : charz ,
+3	:
+int} , } root packet u8x
+{ int16  x_y_z,// trailing space 
+@calculatedFrom(/// triple
+""abc"" // trailing space 
+) @leftPad (
+' ' ) @tag(  3 ) match Packet  as leftPad /// triple
+{ ""// no comment"" : float	,} , repeat
+    string_ Packet , string zchar
+,
+    /// triple
+    Packet `
+` ,  float {int8 rootA @lengthOf(
+    // packet A { u8 x, }
+    x_y_z
+    ) ,
+    // " ++ [128512]%N ++ runes_of_ascii " emoji
+    }, Header @lengthOf( stringy
+    //	t
+    )
+,
     // @lengthOf(
-    ]	Foo , i64 x_y_z , o msg_type
+    string /// triple
+Logon @calculatedFrom(""// no comment"" ), }MetaData
+// @lengthOf(
+// `tick` ""quote"" 'q'
+options1 {Foo stringy `" ++ [28040; 24687; 31867; 22411]%N ++ runes_of_ascii "` , Packet i64_ `a\`
+, char[
+4294967296 ] lengthOf , char[]
+_x , i64 Packet , zchar[
+    255] x
+, }
+")).
+Eval vm_compute in ("<<<M529>>>" ++ check (runes_of_ascii "packet rootA { metadata { int32
+    body  `doc` ,repeat calculatedFrom u8x
+,u32 float , },
+@lengthOf(
+// @lengthOf(
+// trailing space 
+T )u8x Header,	repeat u16 Z9_ ,
+@leftPad (
+    '0'	)
+repeat Z9_ { stringy msg_type
+    `
+` ,As
+{match i8i8
+    as	chars {
+10 :len
+    ,
+    [ ""abc"", 42
+//	t
+// c
+, 7 ] :  leftPad ,42 : lengthOf , 00 : zchar ,
+    //x
+    } , i32
+    i64_ // @lengthOf(
+, repeat
+lengthOf msg_type`` //x
+,
+    }	,
+    int16 Packet @calculatedFrom( ""packet"") ,} , len @lengthOf( float
+    //
+    ) `two words`,
+@calculatedFrom( //	t
+""a\""b"" ) repeat
+pack
+,
+    @tag( 0 ) float32 tag `tab	here` ,rootA @calculatedFrom(""// no comment""
+) ,
+@lengthOf(x_y_z	)
+msg_type { match crc
+    as
+string_ { 0:	u8x , 10
+    : // " ++ [27880; 37322]%N ++ runes_of_ascii "
+crc	, ""x y"" : Pad
+    , 3: a1	,007
+    : x , [ """" ] : A },
+} , @calculatedFrom(
+    ""CRC32"" ) @rightPad (' ')
+    @tag( 10	) match zchar
+    as body {
+65535 // trailing space 
+:
+    // packet A { u8 x, }
+    tag
+    } ,
+}
+")).
+Eval vm_compute in ("<<<M3605>>>" ++ check (runes_of_ascii "// top
+packet // c0a
+  // c0b
+P1 // c1
+{ u8 a // c4
+, // c5a
+  // c5b
+} packet // c7a
+  // c7b
+P2 // c8a
+  // c8b
+{ // c9
+P1 // c10
+, // c11a
+  // c11b
+}
+    // c12
+packet
+    // c13
+P3 // c14a
+  // c14b
+{ // c15
+P2 // c16a
+  // c16b
+,
+    // c17
+P1
+    // c18
+, // c19
+} // c20a
+  // c20b
+packet // c21a
+  // c21b
+P4 {
+    // c23
+repeat // c24a
+  // c24b
+P3
+    // c25
+,
+    // c26
+P2 // c27
+,
+    // c28
+}
+    // c29
+root
+    // c30
+packet // c31a
+  // c31b
+P5 // c32
+{ // c33a
+  // c33b
+P4 // c34a
+  // c34b
+, // c35a
+  // c35b
+P3 // c36
+, // c37
+P1 // c38
+, // c39
+u8 // c40
+K , match // c43a
+  // c43b
+K // c44a
+  // c44b
+as
+    // c45
+Body // c46a
+  // c46b
+{ // c47a
+  // c47b
+4
+    // c48
+: // c49
+P4 // c50
+, // c51a
+  // c51b
+3 // c52a
+  // c52b
+: // c53a
+  // c53b
+P3 // c54a
+  // c54b
+, // c55a
+  // c55b
+2
+    // c56
+:
+    // c57
+P2 // c58
+, 1
+    // c60
+: // c61
+P1
+    // c62
+, // c63
+} , }
+    // c66
+")).
+Eval vm_compute in ("<<<M492>>>" ++ check (runes_of_ascii "packet roots { } root packet metadata{ repeat //	t
+float32 int ,	_x @lengthOf(
+    packetx //
+) `
+` , repeat Packet Header
+, @tag( 0 // trailing space 
+)/// triple
+float32 msg_type
+    @calculatedFrom(
+""\" ++ [233]%N ++ runes_of_ascii """// a // b
+)  , char[
+0 ] BodyLength , len
+@calculatedFrom(	""" ++ [28040; 24687]%N ++ runes_of_ascii """ ) // trailing space 
+`tab	here` ,	}
+root packet calculatedFrom
+{ @rightPad ( ' '
+)
+    tag
+@calculatedFrom(""// no comment"")
+    // " ++ [27880; 37322]%N ++ runes_of_ascii "
+    , crc @calculatedFrom(""\" ++ [233]%N ++ runes_of_ascii """ ), @lengthOf( u128
+// a // b
+//x
+) @lengthOf(
+chars)
+repeat
+    lengthOf`tab	here` // a // b
+, @tag( 007)
+    char[]
+    roots , @calculatedFrom(""" ++ [233]%N ++ runes_of_ascii "t" ++ [233]%N ++ runes_of_ascii """ ) repeat zchar[ 0 ] chars `crlf
+line`  , // `tick` ""quote"" 'q'
+@calculatedFrom(""a\\"" )	options1 ,
+    // " ++ [27880; 37322]%N ++ runes_of_ascii "
+    @rightPad ( // " ++ [27880; 37322]%N ++ runes_of_ascii "
+)
+    Z9_ { float32 x_y_z @lengthOf( asx // @lengthOf(
+)
+    , repeat float32 asx , f32 zchar
+`" ++ [28040; 24687; 31867; 22411]%N ++ runes_of_ascii "`
+    , char[ 007 ] Packet
+`a\`
+,
+} ,
+}")).
+Eval vm_compute in ("<<<M421>>>" ++ check (runes_of_ascii "// @lengthOf(
+MetaData Pad
+    { }
+MetaData
+msg_type { // packet A { u8 x, }
+packetx i64_ , char[ 1 ] Foo
+`" ++ [233]%N ++ runes_of_ascii "`	, } MetaData o  { }
+    // `tick` ""quote"" 'q'
+    options //x
+{ MetaDataX =u32 ;
+// @lengthOf(
+//x
+trueish
+    //	t
+    ='0'	options1 = 65535 ; Pad ='0'
+; x_y_z =
+    //x
+    ""a\""b""
+    } packet chars
+// trailing space 
+//	t
+{ @calculatedFrom(
+    ""a\\"" ) //	t
+match
+//x
+// trailing space 
+charz as  Foo { [4294967296 ,
+    ""CRC32"" ,
+// @lengthOf(
+// c
+3
+, ""a\""b""
+,
+    // a // b
+    ""CRC32""] :
+// trailing space 
+// c
+i8i8
+,
+} , @calculatedFrom(""" ++ [233]%N ++ runes_of_ascii "t" ++ [233]%N ++ runes_of_ascii """
+) char[] chars @calculatedFrom(""// no comment"" ) , char[]
+    x_y_z//
+,
+@lengthOf(
+trueish
+) @lengthOf( packetx) @lengthOf( packetx  ) Logon
+    @calculatedFrom( ""it's""	)
+, string
+_x  , uint32 packetx ,
+    repeat MetaDataX`tab	here`
+    ,
+}
+")).
+Eval vm_compute in ("<<<M1212>>>" ++ check (runes_of_ascii "/// triple
+packet matchKey {// `tick` ""quote"" 'q'
+repeatCount
+`line1
+line2` , @calculatedFrom(
+""1"")
+u128 @calculatedFrom(
+    ""\" ++ [233]%N ++ runes_of_ascii """ ) , // @lengthOf(
+@calculatedFrom( ""abc""	)repeat int
+uint8x , Packet  @lengthOf(trueish ) , @tag( 3 // `tick` ""quote"" 'q'
+) rootA
+    @lengthOf(asx ) `it's`
+,repeat tag // " ++ [128512]%N ++ runes_of_ascii " emoji
+body ,
+    @lengthOf( //	t
+_x )	@calculatedFrom( ""1""
+) @leftPad ( '0'
+    )
+    i8 i64_	@calculatedFrom( ""a\""b"" ) ,}packet x_y_z {
+@tag(  7) match// @lengthOf(
+Z9_  as i64_	{ """"
+: roots , ""`tick`""
+    :
+T,007: zchar , [ // packet A { u8 x, }
+4294967296 ,	7,4294967296 ,
+4294967296 ,""\" ++ [233]%N ++ runes_of_ascii """, // " ++ [27880; 37322]%N ++ runes_of_ascii "
+10 ,255 ]	: pack
+// packet A { u8 x, }
+//
+, 1 : asx
+,""CRC32"" :
+x_y_z } , // a // b
+} options
+    { // c
+}
+root //
+packet packetx{i8i8 @lengthOf( u128 ) , }")).
+Eval vm_compute in ("<<<M511>>>" ++ check (runes_of_ascii "
+MetaData BodyLength { // trailing space 
+zchar[ 10
+]trueish, }
+packet f32a
+    {@calculatedFrom(
+    ""a\\"" ) @tag( 3
+    )
+@leftPad ( '\x00'	)
+u128 { match u8x
+    as len
+    { [
+"""",
+0 ]
+: chars
+, 7
+    :rootA
+,}, // " ++ [128512]%N ++ runes_of_ascii " emoji
+match zchar as matchKey { 00 :
+repeatCount //	t
+,""a	b"":Logon ,
+[ """ ++ [233]%N ++ runes_of_ascii "t" ++ [233]%N ++ runes_of_ascii """
+, 00 ]:packetx} ,
+i64 tag,	}
+, @leftPad
+    ( '\x00'
+) char[] u128 `// not a comment` ,
+    float64 lengthOf @lengthOf( // " ++ [27880; 37322]%N ++ runes_of_ascii "
+charz ) , @leftPad
+(
+    '\x00'
+)As uint8x `crlf
+line`, }packet	uint8x { char[
+    255 ] calculatedFrom
+    , roots @lengthOf( a1
+) `tab	here`
+    // trailing space 
+    ,
+//
+/// triple
+@rightPad
+    (' ' )  repeat a1 a1, char
+crc , i16 a1 , } //x
+packet len{ //
+zchar a1 // trailing space 
+`u8 x,`,	}")).
+Eval vm_compute in ("<<<M3636>>>" ++ check (runes_of_ascii "options {
+    LittleEndian = false;
+    StringPrefixLenType = u8;
+    ArrayPrefixLenType = u8;
+    FixedStringPadFromLeft = true;
+    FixedStringPadChar = ' ';
+}
+packet Trade {
+    zchar[2] Side2,
+    i8 seqNo,
+}
+packet Party {
+    uint32 price,
+}
+packet Ack {
+    @rightPad('\x00') char[6] x,
+    repeat char[4] Flags,
+    zchar[9] f1,
+}
+packet Cancel {
+    Ack,
+}
+packet Heartbeat {
+    string Px,
+    string Acct,
+    f64 Side2,
+    InQty24 {
+        i16 seqNo,
+        repeat i32 Flags,
+    },
+}
+root packet Logon {
+    Trade,
+    i64 venue,
+    u32 x,
+    u8 seqNo,
+    match seqNo as Body {
+        [1, 164] : Ack,
+        31 : Cancel,
+        23 : Heartbeat,
+        64 : Party,
+    },
+}
+")).
+Eval vm_compute in ("<<<M362>>>" ++ check (runes_of_ascii "  packet
+    // a // b
+    MetaDataX {
+match _x as roots {
+""`tick`"" :o , [00, // `tick` ""quote"" 'q'
+0123456789
+, 1 ,
+    0123456789,""a\\""  ,
+    ""`tick`""  , 007
+,
+    // " ++ [27880; 37322]%N ++ runes_of_ascii "
+    ""// no comment""]
+: Logon , }	, f32 len @calculatedFrom(
+""{,}"" // c
+) `" ++ [233]%N ++ runes_of_ascii "` , // a // b
+@calculatedFrom( """") @leftPad
+( '\x00') i32 calculatedFrom@lengthOf(
+    Packet)
+    // @lengthOf(
+    `line1
+line2`
+    , @calculatedFrom( ""\" ++ [233]%N ++ runes_of_ascii """	)
+match asx as	As { ""it's"" :_x,""x y""  : calculatedFrom, ""packet"" :
+    Pad
+, } ,  char[] x, char[] matchKey,trueish lengthOf ,@lengthOf(roots	) repeat len // c
+, @lengthOf( crc) repeat
+//
+// " ++ [27880; 37322]%N ++ runes_of_ascii "
+char[]u128 `tab	here`, repeat u64 Header
+    //
     , }
-// packet A { u8 x, }
 ")).
-Eval vm_compute in ("<<<M1628>>>" ++ check (runes_of_ascii "packet
-//	t
+Eval vm_compute in ("<<<M299>>>" ++ check (runes_of_ascii "packet
+As {
+char[ 42	]//
+chars
+@calculatedFrom(
+""a\""b"" ) `it's` ,f32a falsey // trailing space 
+`// not a comment` , // " ++ [128512]%N ++ runes_of_ascii " emoji
+string
+trueish
+`" ++ [28040; 24687; 31867; 22411]%N ++ runes_of_ascii "` ,
+@lengthOf(  metadata )@tag(65535 ) @calculatedFrom( ""`tick`"" ) repeat Logon { x_y_z@lengthOf(lengthOf ),uint32  u
+, i64_ @calculatedFrom( ""CRC32""
+    )
+`a\` , asx @calculatedFrom( """" ) `u8 x,` ,	} ,
+u16
+    _x `` , repeat string_
+//
+// `tick` ""quote"" 'q'
+, options1 f32a , @calculatedFrom(""\n""// a // b
+) Packet @lengthOf( zchar
+    ) , }// `tick` ""quote"" 'q'
+options { // a // b
+} packet a1 { @tag( 0123456789)u8
+    uint8x	`{ , }` ,
+    u32// " ++ [27880; 37322]%N ++ runes_of_ascii "
+x_y_z `say ""hi""`
+, }
+")).
+Eval vm_compute in ("<<<M101>>>" ++ check (runes_of_ascii "
+root
+packet Packet
+{ char[0123456789 ] pack @lengthOf(
+As ) `{ , }`,
+repeat
+    // `tick` ""quote"" 'q'
+    string
+    rootA ,	match
+repeatCount
+    as
+    pack /// triple
+{ ""a\""b""
+    :uint8x// packet A { u8 x, }
+[ ""x y"" ,
+    ""it's""
+    // " ++ [128512]%N ++ runes_of_ascii " emoji
+    ]	: chars
+    ""\" ++ [233]%N ++ runes_of_ascii """
+: //	t
+crc	0123456789 :Packet ,[""1""
+]:	A ,
+    // @lengthOf(
+    } ,// `tick` ""quote"" 'q'
+} options /// triple
+{ }packet pack // trailing space 
+{ i8//x
+MetaDataX ,string float
+`" ++ [28040; 24687; 31867; 22411]%N ++ runes_of_ascii "`,@lengthOf( trueish)
+@calculatedFrom(
+    ""`tick`"" ) f64 lengthOf ,repeat pack	packetx
 // trailing space 
-_x {
 // packet A { u8 x, }
-// c
-char[
-3
-    ] u8x @lengthOf(
-u8x ) , @calculatedFrom(""" ++ [128512]%N ++ runes_of_ascii """ // @lengthOf(
-)
-i16	Foo
-@lengthOf(	string_
-    )`doc`	, repeat	i64 metadata , @lengthOf( string_
-) i8 i8 // c
-u  `line1
-line2`	,
-}
+, }
 ")).
-Eval vm_compute in ("<<<M1662>>>" ++ check (runes_of_ascii "packet
-//	t
-// trailing space 
-_x {
-// packet A { u8 x, }
-// c
-char[
-3
-    ] u8x @lengthOf(
-u8x ) , @calculatedFrom(""" ++ [128512]%N ++ runes_of_ascii """ " ++ [127]%N ++ runes_of_ascii "// @lengthOf(
-)
-i16	Foo
-@lengthOf(	string_
-    )`doc`	, repeat	i64 metadata , @lengthOf( string_
-) i8 // c
-u  `line1
-line2`	,
+Eval vm_compute in ("<<<M3718>>>" ++ check (runes_of_ascii "packet Packet {
+    @tag(65535)
+    @leftPad(' ')
+    @tag(255)
+    uint8 len @lengthOf(T),
+    int32 u8x,
+    @lengthOf(rootA)
+    float32 i64_ `u8 x,`,
 }
-")).
-Eval vm_compute in ("<<<M1584>>>" ++ check (runes_of_ascii "packet
-//	t
-// trailing space 
-_x {
-// packet A { u8 x, }
-// c
-char[
-3
-    ] u8x @lengthOf(
-u8x ) , @calculatedFrom(""" ++ [128512]%N ++ runes_of_ascii """ // @lengthOf(
-)
-i16	Foo
-@lengthOf(	string_
-    ),	`doc` repeat	i64 metadata , @lengthOf( string_
-) i8 // c
-u  `line1
-line2`	,
+
+packet int {
+    repeat i8i8 {
+        lengthOf @lengthOf(int) `line1
+        line2`,
+        string falsey `
+        `,
+        uint16 roots @lengthOf(charz),
+    },
 }
-")).
-Eval vm_compute in ("<<<M1630>>>" ++ check (runes_of_ascii "packet
-//	t
-// trailing space 
-_x {
-// packet A { u8 x, }
-// c
-char[
-3
-    ] u8x @lengthOf(
-u8x ) , @calculatedFrom(""" ++ [128512]%N ++ runes_of_ascii """ // @lengthOf(
-)
-i16	Foo
-@lengthOf(	string_
-    )`doc`	, repeat	i64 metadata , @lengthOf( string_
-) ) // c
-u  `line1
-line2`	,
+
+options {
+    Foo = ' '
+    len = """ ++ [128512]%N ++ runes_of_ascii """;
+    chars = u64;
+    //x
+    //
+    uint8x = """ ++ [128512]%N ++ runes_of_ascii """;
+    metadata = ' ';
 }
+
+// " ++ [27880; 37322]%N ++ runes_of_ascii "
+MetaData Header {
+    i16 matchKey,
+    Packet Packet `u8 x,`,
+}
+
+packet u128 {
+    uint8x @lengthOf(charz) `u8 x,`,
+}")).
+Eval vm_compute in ("<<<M33>>>" ++ check (runes_of_ascii "root/// triple
+packet int{
+f32 i8i8 , uint8x /// triple
+zchar
+    `// not a comment`// a // b
+,
+    u64 u8x @lengthOf( u ) ,char[] i64_@lengthOf( crc
+    ), @lengthOf( packetx
+    )metadata i64_
+, } packet a1	{ zchar[ 65535
+] float, zchar[ 00
+    //	t
+    ]
+    matchKey
+,
+} options { crc =u64 } MetaData leftPad { trueish string_ ,  uint64 Header
+`" ++ [28040; 24687; 31867; 22411]%N ++ runes_of_ascii "` , }
+    // " ++ [128512]%N ++ runes_of_ascii " emoji
+    MetaData//x
+tag { zchar
+chars
+// " ++ [27880; 37322]%N ++ runes_of_ascii "
+//x
+,  repeatCount  lengthOf`
+` , i16
+u /// triple
+`tab	here` , lengthOf
+a1 ,u16 o
+    , char
+i64_  `two words` , }
+//x
 ")).
-Eval vm_compute in ("<<<M280>>>" ++ check (runes_of_ascii "
-options
-{charz =""x y"" calculatedFrom =	'0'	} packet msg_type {msg_type asx, string// packet A { u8 x, }
-packetx ,MetaDataX,
-Header { i64 packetx`tab	here`
-,  }, } options { // @lengthOf(
-uint8x = 0 x_y_z =	""x y""
-// packet A { u8 x, }
-//	t
-; }")).
-Eval vm_compute in ("<<<M227>>>" ++ check (runes_of_ascii "
-root packet
-rootA { } root packet
+Eval vm_compute in ("<<<M3627>>>" ++ check (runes_of_ascii "// top
+options // c0
+{ StringPrefixLenType // c2
+= u16
+    // c4
+; FixedStringPadChar // c6
+= ' ' ; // c9a
+  // c9b
+}
+    // c10
+packet
+    // c11
+Party
+    // c12
+{
+    // c13
+} packet Quote
+    // c16
+{
+    // c17
+repeat Party , // c20
+repeat
+    // c21
+char[ // c22
+2 // c23
+] f1 , } packet Logon // c29a
+  // c29b
+{ } // c31a
+  // c31b
+root // c32a
+  // c32b
+packet // c33a
+  // c33b
+Cancel { // c35a
+  // c35b
+uint16 // c36
+x
+    // c37
+, zchar[ // c39a
+  // c39b
+6 ]
+    // c41
+f1 // c42
+, // c43
+}
+    // c44
+")).
+Eval vm_compute in ("<<<M334>>>" ++ check (runes_of_ascii "
+packet a1
+    /// triple
+    { uint8 As ,// `tick` ""quote"" 'q'
+char[ 1] chars
+    @lengthOf(
+    msg_type )  , repeat char[ 1 ] x_y_z `two words`
+    //x
+    , // c
+@tag(00
+)
+int32
+i8i8
+    , u64 trueish ,
+    // @lengthOf(
+    @lengthOf(
+    body )int16 float @lengthOf( tag )
+    , // " ++ [128512]%N ++ runes_of_ascii " emoji
+x // trailing space 
+@calculatedFrom( ""`tick`""	) ,
+} MetaData x_y_z
+    {	char[
+10
+    ]chars,Z9_ pack`
+`  ,  string As
+, //x
+len
+    int ,A Z9_  , }	options { o = 0123456789 ; _x	= ' '
+;
+}")).
+Eval vm_compute in ("<<<M251>>>" ++ check (runes_of_ascii "options { tag
+=
+false// c
+; charz =
+char[
+    //
+    4294967296 ] ; float = ' '; u =// `tick` ""quote"" 'q'
+zchar[ 255
+    ] x//x
+=
+    ""a\""b""}
+packet leftPad /// triple
+{match
+As as
+    falsey{ [ 10
+    ,0123456789, 007
+,
+""" ++ [28040; 24687]%N ++ runes_of_ascii """
 // a // b
 // trailing space 
-_x // " ++ [27880; 37322]%N ++ runes_of_ascii "
-{
-    i64_, // a // b
-} MetaData options1{ // `tick` ""quote"" 'q'
-a1 float `crlf
-line`
-,
-    u8x
-falsey // " ++ [128512]%N ++ runes_of_ascii " emoji
-`" ++ [233]%N ++ runes_of_ascii "`,
-f32a MetaDataX,int64 u8x, } packet f32a {}
+, //	t
+""packet""	, ""`tick`"", ""1"" ] :
+calculatedFrom , } ,@calculatedFrom(
+    ""it's""
+) float64// c
+x_y_z @lengthOf(  leftPad ) , trueish
+@lengthOf(packetx)
+    , }options
+{ string_	=
+    ""a\""b"" ;
+_x = false }
 ")).
-Eval vm_compute in ("<<<M4329>>>" ++ check (runes_of_ascii "packet u8x {
-    //
-    asx `say ""hi""`,
+Eval vm_compute in ("<<<M17>>>" ++ check (runes_of_ascii "root  packet
+Pad {
+@tag(65535 ) @lengthOf(
+matchKey) //
+int32 pack
+    , // `tick` ""quote"" 'q'
+zchar[65535  ]
+charz @calculatedFrom(""""
+    )
+`crlf
+line` , }
+MetaData
+options1
+    {charz crc
+//
+// " ++ [27880; 37322]%N ++ runes_of_ascii "
+, body packetx `// not a comment`, } packet string_ { char[	7 // @lengthOf(
+]
+T	@calculatedFrom(""\" ++ [233]%N ++ runes_of_ascii """) // c
+, @leftPad ( '\x00')@calculatedFrom(
+""packet"" )
+@tag( 42
+// " ++ [128512]%N ++ runes_of_ascii " emoji
+// " ++ [128512]%N ++ runes_of_ascii " emoji
+) string string_ @calculatedFrom( """ ++ [28040; 24687]%N ++ runes_of_ascii """ ) `a\` , }
+")).
+Eval vm_compute in ("<<<M554>>>" ++ check (runes_of_ascii "root packet A	{ // packet A { u8 x, }
+char[]  msg_type
+    `two words` , // a // b
+@calculatedFrom( ""abc"" )
+@leftPad
+(
+'\x00'
+) @calculatedFrom(
+    ""x y""
+    ) repeat
+//x
+// @lengthOf(
+int64 chars, zchar[ 1
+] _x@calculatedFrom(	""1""
+    ) `doc` ,
+// c
+//x
+}packet stringy
+{int8
+calculatedFrom  @lengthOf(_x ) `line1
+line2` , @tag( 42 ) char[ 10 ]//
+Logon@lengthOf( roots ) `" ++ [233]%N ++ runes_of_ascii "`// " ++ [128512]%N ++ runes_of_ascii " emoji
+, i32 //
+options1  , i16 x_y_z ,
+    } 	 ")).
+Eval vm_compute in ("<<<M4340>>>" ++ check (runes_of_ascii "options {
+    float = ' '
+    Foo = ""a	b""
+    A = i16;
+    string_ = ""it's""
+}// c
+
+MetaData float {
+    charz falsey,
+    char[] chars,
+    float32 Pad,
 }
 
-MetaData Foo {
-    packetx MetaDataX `" ++ [28040; 24687; 31867; 22411]%N ++ runes_of_ascii "`,
-}
-
-packet a1 {
-    @calculatedFrom(""\" ++ [233]%N ++ runes_of_ascii """)
-    len ``,
-    @calculatedFrom(""a\\"")
-    @lengthOf(calculatedFrom)
-    //	t
-    string msg_type,
-}")).
-Eval vm_compute in ("<<<M4342>>>" ++ check (runes_of_ascii "packet body {
-    As @lengthOf(string_) `two words`,
-    zchar[10] i8i8 @calculatedFrom(""`tick`""),
-    zchar[0] pack @calculatedFrom(""x y""),
-    uint8 rootA @calculatedFrom(""a\\""),
-    i32 msg_type,
-    u8 repeatCount,
-}")).
-Eval vm_compute in ("<<<M115>>>" ++ check (runes_of_ascii "
-MetaData stringy
-{
-    i16
-    f32a , string  crc `crlf
-line`
-, f32 o `doc` , float64
-calculatedFrom , }	packet o
-{ @leftPad // `tick` ""quote"" 'q'
-( )string_
-    @lengthOf(packetx // `tick` ""quote"" 'q'
-), }
-")).
-Eval vm_compute in ("<<<M1309>>>" ++ check (runes_of_ascii "MetaData rootA{ }packet BodyLength{repeat
-    int32 falsey`a\`
-, i64
-rootA @lengthOf(
-falsey
-) , } root packet
-x
-    { u64 A  `" ++ [233]%N ++ runes_of_ascii "` ,} packet // @lengthOf(
-BodyLength{}
+MetaData repeatCount {
+    char[65535] Header `" ++ [233]%N ++ runes_of_ascii "`,
+    float32 Pad,
+    u64 len,
+    // `tick` ""quote"" 'q'
+    lengthOf a1 `{ , }`,
     //x
-    options { A
+}
+
+options {
+    leftPad = zchar[00];
+    charz = 10;
+    options1 = string
+    len = zchar[255];
+    Logon = ""\n"";
+}")).
+Eval vm_compute in ("<<<M1225>>>" ++ check (runes_of_ascii "options {
+options1 =
+    4294967296 ;
+    }
+    root packet crc
+// trailing space 
+// " ++ [27880; 37322]%N ++ runes_of_ascii "
+{@calculatedFrom(
+//
+// `tick` ""quote"" 'q'
+""a\""b"")
+    zchar[
+255
+] u8x
+    // a // b
+    @lengthOf( //
+u8x
+) `u8 x,`// " ++ [128512]%N ++ runes_of_ascii " emoji
+,
+repeat int16
+    x_y_z ,  calculatedFrom@lengthOf(
+    x_y_z )
+    ,
+    //
+    @rightPad ( ' ' ) repeat char[] calculatedFrom ,
+    repeat
+Foo rootA
+`// not a comment` , }
+")).
+Eval vm_compute in ("<<<M3809>>>" ++ check (runes_of_ascii "packet repeatCount {
+    uint64 stringy,
+}
+
+options {
+    crc = '0'
+}//x
+
+packet int {
+    repeat a1 charz,
+}
+
+options {
+    matchKey = """ ++ [28040; 24687]%N ++ runes_of_ascii """;
+    crc = """ ++ [28040; 24687]%N ++ runes_of_ascii """;
+    roots = '\x00';
+    // packet A { u8 x, }
+    //x
+}
+
+packet i8i8 {
+    @calculatedFrom(""abc"")
+    char[] _x `
+    `,/// triple
+    uint8 Packet `crlf
+    line`,
+    string_ `{ , }`,
+    /// triple
+    // " ++ [128512]%N ++ runes_of_ascii " emoji
+}")).
+Eval vm_compute in ("<<<M4276>>>" ++ check (runes_of_ascii "root  
+      // `tick` ""quote"" 'q'
+  //
+      packet
+    T { @rightPad() @calculatedFrom(
+	""it's""
+
+    )  int A ,  match Packet
+as  Packet 
+{
+0123456789
+    :
+	u128  , 	 // c
+    ""a\\"" :	Foo
+    ,1
+:// @lengthOf(
+
+int
+    ,
+[
+        // " ++ [128512]%N ++ runes_of_ascii " emoji
+  7, 
+4294967296, 
+""\n""
+, ""abc"" , ""abc"" ,
+	""\" ++ [233]%N ++ runes_of_ascii """
+]  :
+
+msg_type
+	}
+
+,}  options
+
+{zchar=
+
+    ' ' 
+;  }
+
+")).
+Eval vm_compute in ("<<<M3552>>>" ++ check (runes_of_ascii "// top
+packet // c0
+B // c1a
+  // c1b
+{ // c2
+u8
+    // c3
+a , // c5a
+  // c5b
+string s // c7
+,
+    // c8
+} // c9a
+  // c9b
+root // c10
+packet
+    // c11
+P
+    // c12
+{ // c13a
+  // c13b
+u16 // c14a
+  // c14b
+L // c15
+@lengthOf(
+    // c16
+B ) // c18
+,
+    // c19
+B
+    // c20
+, // c21
+u8
+    // c22
+t // c23a
+  // c23b
+, } // c25a
+  // c25b
+")).
+Eval vm_compute in ("<<<M1110>>>" ++ check (runes_of_ascii "  MetaData	i64_ { // trailing space 
+falsey asx	`u8 x,`  , } MetaData T
+    { }
+root packet msg_type
+{ zchar[ 7	] options1@calculatedFrom(
+    ""a	b"" )
+`// not a comment`
+    , @calculatedFrom( """ ++ [28040; 24687]%N ++ runes_of_ascii """) matchKey @lengthOf(//x
+x_y_z
+), uint64 len
+,
+    @tag(255) u32	A
+// " ++ [128512]%N ++ runes_of_ascii " emoji
+// packet A { u8 x, }
+`` ,
+    // c
+    } // a // b")).
+Eval vm_compute in ("<<<M1951>>>" ++ check (runes_of_ascii "MetaData
+    u { }  options {
+// c
+// @lengthOf(
+float = int8 ;rootA =false ; As =	int16 // `tick` ""quote"" 'q'
+repeatCount
+    // trailing space 
     =
-""\n"" ; }
+    int16 int16
+; u8x =
+    //	t
+    '\x00' ; } options	{
+    repeatCount
+= 0
+u128
+    //
+    = false ; i64_
+// trailing space 
+// `tick` ""quote"" 'q'
+= '0' ; //	t
+}
+")).
+Eval vm_compute in ("<<<M1866>>>" ++ check (runes_of_ascii "MetaData
+    u { { }  options {
+// c
+// @lengthOf(
+float = int8 ;rootA =false ; As =	int16 // `tick` ""quote"" 'q'
+repeatCount
+    // trailing space 
+    =
+    int16
+; u8x =
+    //	t
+    '\x00' ; } options	{
+    repeatCount
+= 0
+u128
+    //
+    = false ; i64_
+// trailing space 
+// `tick` ""quote"" 'q'
+= '0' ; //	t
+}
+")).
+Eval vm_compute in ("<<<M2075>>>" ++ check (runes_of_ascii "MetaData
+    u { }  options {
+// c
+// @lengthOf(
+float = int8 ;rootA =false ; As =	int16 // `tick` ""quote"" 'q'
+repeatCount
+    // trailing space 
+    =
+    int16
+; u8x =
+    //	t
+    '\x00' ; } options	{
+    repeatCount
+= 0
+u128
+    //
+    = false ; caf" ++ [233]%N ++ runes_of_ascii "_1
+// trailing space 
+// `tick` ""quote"" 'q'
+= '0' ; //	t
+}
+")).
+Eval vm_compute in ("<<<M1932>>>" ++ check (runes_of_ascii "MetaData
+    u { }  options {
+// c
+// @lengthOf(
+float = int8 ;rootA =false ; As int16	= // `tick` ""quote"" 'q'
+repeatCount
+    // trailing space 
+    =
+    int16
+; u8x =
+    //	t
+    '\x00' ; } options	{
+    repeatCount
+= 0
+u128
+    //
+    = false ; i64_
+// trailing space 
+// `tick` ""quote"" 'q'
+= '0' ; //	t
+}
+")).
+Eval vm_compute in ("<<<M182>>>" ++ check (runes_of_ascii "packet
+// @lengthOf(
+// " ++ [128512]%N ++ runes_of_ascii " emoji
+Foo { @calculatedFrom( """" )
+@calculatedFrom(""1""
+) @rightPad () int32 As
+@calculatedFrom( """"// a // b
+)
+    `say ""hi""` // c
+, @calculatedFrom( ""\n""
+)
+// trailing space 
+/// triple
+char[// trailing space 
+65535 ] asx ,
+    repeat	int8 trueish `{ , }` ,
+} root packet lengthOf{  }")).
+Eval vm_compute in ("<<<M475>>>" ++ check (runes_of_ascii "options {zchar= ' '
+    ;
+    MetaDataX
+    =
+    zchar[ 255
+] // " ++ [128512]%N ++ runes_of_ascii " emoji
+; } options
+{ options1 = ""1""
+//x
+// " ++ [128512]%N ++ runes_of_ascii " emoji
+; } MetaData u128
+/// triple
+// `tick` ""quote"" 'q'
+{ char[]
+    leftPad , } options //	t
+{ a1 = 255; }  packet
+    As { repeat char[007 ]
+    A , f32a@lengthOf( calculatedFrom
+    ) ,
+    }
+
+")).
+Eval vm_compute in ("<<<M2053>>>" ++ check (runes_of_ascii "MetaData
+    u { }  options {
+// c
+// @lengthOf(
+float = int8 ;rootA =false ; As =	int16 // `tick` ""quote"" 'q'
+repeatCount
+    // trailing space 
+    =
+    int16
+; u8x =
+    //	t
+    '\x00' ; } options	{
+    repeatCount
+= 0
+u128
+    //
+    = false ; i64_
+// trailing space 
+// `tick` ""quote"" 'q'
+= '0' ;")).
+Eval vm_compute in ("<<<M1281>>>" ++ check (runes_of_ascii "MetaData a1	{ //x
+u8 u8x,}
+options
+    // " ++ [128512]%N ++ runes_of_ascii " emoji
+    { float
+='0'/// triple
+;
+    // @lengthOf(
+    pack =
+// packet A { u8 x, }
+// @lengthOf(
+string
+    ; }
+MetaData
+packetx {
+tag
+Foo`
+`,  uint8x asx , uint16
+body	,
+T x ,// packet A { u8 x, }
+float a1 `
+`
+    , matchKey  crc
+, }
+// a // b
+")).
+Eval vm_compute in ("<<<M222>>>" ++ check (runes_of_ascii "options	{ // packet A { u8 x, }
+rootA
+= true
+    ; chars
+=	true // packet A { u8 x, }
+}options	{	lengthOf // @lengthOf(
+= 3
+trueish
+= ' '
+    ;
+    /// triple
+    crc
+// trailing space 
+// @lengthOf(
+=
+    // trailing space 
+    true  ;
+    rootA =""it's""; chars=
+    int32 ;//x
+}
+")).
+Eval vm_compute in ("<<<M3482>>>" ++ check (runes_of_ascii "packet chars // c1a
+  // c1b
+{ // c2a
+  // c2b
+} // c3a
+  // c3b
+packet
+    // c4
+MetaDataX // c5a
+  // c5b
+{ @tag( // c7a
+  // c7b
+42
+    // c8
+) i16 // c10a
+  // c10b
+string_ // c11a
+  // c11b
+, // c12a
+  // c12b
+repeat // c13
+x `say ""hi""` // c15
+, // c16a
+  // c16b
+} ")).
+Eval vm_compute in ("<<<M1523>>>" ++ check (runes_of_ascii "packet
+//	t
+// trailing space 
+_x {
+// packet A { u8 x, }
+// c
+char[
+3
+    ] u8x @lengthOf( @lengthOf(
+u8x ) , @calculatedFrom(""" ++ [128512]%N ++ runes_of_ascii """ // @lengthOf(
+)
+i16	Foo
+@lengthOf(	string_
+    )`doc`	, repeat	i64 metadata , @lengthOf( string_
+) i8 // c
+u  `line1
+line2`	,
+}
+")).
+Eval vm_compute in ("<<<M1500>>>" ++ check (runes_of_ascii "packet
+//	t
+// trailing space 
+_x uint64
+// packet A { u8 x, }
+// c
+char[
+3
+    ] u8x @lengthOf(
+u8x ) , @calculatedFrom(""" ++ [128512]%N ++ runes_of_ascii """ // @lengthOf(
+)
+i16	Foo
+@lengthOf(	string_
+    )`doc`	, repeat	i64 metadata , @lengthOf( string_
+) i8 // c
+u  `line1
+line2`	,
+}
+")).
+Eval vm_compute in ("<<<M1578>>>" ++ check (runes_of_ascii "packet
+//	t
+// trailing space 
+_x {
+// packet A { u8 x, }
+// c
+char[
+3
+    ] u8x @lengthOf(
+u8x ) , @calculatedFrom(""" ++ [128512]%N ++ runes_of_ascii """ // @lengthOf(
+)
+i16	Foo
+@lengthOf(	string_
+    ) )`doc`	, repeat	i64 metadata , @lengthOf( string_
+) i8 // c
+u  `line1
+line2`	,
+}
+")).
+Eval vm_compute in ("<<<M893>>>" ++ check (runes_of_ascii "packet string_ {
+zchar[ 65535 ]
+    stringy `
+`
+,
+    // `tick` ""quote"" 'q'
+    @lengthOf( As) string
+Packet
+    ,
+} packet	Foo {@tag( 255)
+lengthOf@calculatedFrom(
+    ""{,}""
+) ,
+    }root packet MetaDataX {
+@leftPad( '0'  )
+    stringy`{ , }` , }
+")).
+Eval vm_compute in ("<<<M1629>>>" ++ check (runes_of_ascii "packet
+//	t
+// trailing space 
+_x {
+// packet A { u8 x, }
+// c
+char[
+3
+    ] u8x @lengthOf(
+u8x ) , @calculatedFrom(""" ++ [128512]%N ++ runes_of_ascii """ // @lengthOf(
+)
+i16	Foo
+@lengthOf(	string_
+    )`doc`	, repeat	i64 metadata , @lengthOf( string_
+) u // c
+i8  `line1
+line2`	,
+}
+")).
+Eval vm_compute in ("<<<M970>>>" ++ check (runes_of_ascii "root
+packet _x { // `tick` ""quote"" 'q'
+@tag( // " ++ [27880; 37322]%N ++ runes_of_ascii "
+1) zchar @lengthOf( len
+// trailing space 
+//	t
+), } packet metadata {
+uint8x{ a1
+Foo ,
+    }
+    , }options {rootA =""`tick`"" ; Pad // c
+=
+    // a // b
+    65535} packet
+    //	t
+    charz { }
+")).
+Eval vm_compute in ("<<<M4162>>>" ++ check (runes_of_ascii "MetaData u {
+}
+
+options {
+    // c
+    // @lengthOf(
+    float = int8;
+    rootA = false;
+    As = int16// `tick` ""quote"" 'q'
+    repeatCount = int16;
+    u8x = '\x00';
+}
+
+options {
+    repeatCount = f64
+    u128 = false;
+    i64_ = '0';//	t
+}")).
+Eval vm_compute in ("<<<M3558>>>" ++ check (runes_of_ascii "// top
+options // c0a
+  // c0b
+{ FixedStringPadFromLeft
+    // c2
+=
+    // c3
+true
+    // c4
+; // c5
+}
+    // c6
+root packet // c8a
+  // c8b
+P // c9a
+  // c9b
+{ // c10
+char[ // c11
+4
+    // c12
+] z // c14
+, // c15
+} // c16a
+  // c16b
+")).
+Eval vm_compute in ("<<<M993>>>" ++ check (runes_of_ascii "packet Logon { repeat
+    u64
+a1
+    //
+    `u8 x,`,uint16 string_ @lengthOf( BodyLength )
+, @tag( 7 ) @tag( 7 )@rightPad
+    (' '
+) metadata ,
+    repeat	char[ 007 ] Foo
+// `tick` ""quote"" 'q'
+// trailing space 
+`u8 x,` , }
+
+")).
+Eval vm_compute in ("<<<M237>>>" ++ check (runes_of_ascii "packet Foo //	t
+{ match
+    // a // b
+    i64_ //x
+as
+x_y_z {65535:  BodyLength
+,
+[3, ""CRC32"" ]
+:u
+, 255:
+T ,[ ""x y""]	:leftPad ,0123456789: As ,
+    } ,
+    zchar[	1
+    ]int
+, } packet
+float
+    { uint16
+Packet	,}")).
+Eval vm_compute in ("<<<M95>>>" ++ check (runes_of_ascii "packet len {
+@tag( 255  ) repeat // packet A { u8 x, }
+zchar[ 007] roots
+, leftPad { //	t
+f32 calculatedFrom , f32
+    lengthOf , u32 calculatedFrom , } ,
+x//	t
+x
+    ,} MetaData u128 {
+A i8i8 `two words` ,}
+")).
+Eval vm_compute in ("<<<M4331>>>" ++ check (runes_of_ascii "packet
+    calculatedFrom { @calculatedFrom( ""{,}"" ) 
+  // c
+  @tag(
+65535)
+f32 Packet@lengthOf(o 
+)
+
+    , @calculatedFrom(
+""`tick`"")
+
+uint32 
+MetaDataX
+    @calculatedFrom(	""it's""	)
+    ``, } // a // b
 ")).
 Eval vm_compute in ("<<<M1787>>>" ++ check (runes_of_ascii "options { trueish = ""`tick`"" ; string_= """ ++ [233]%N ++ runes_of_ascii "t" ++ [233]%N ++ runes_of_ascii """
     // c
@@ -2109,48 +2126,47 @@ packet Logon {
 u16 `u8 x,` string_ ,
 }
 ")).
-Eval vm_compute in ("<<<M4431>>>" ++ check (runes_of_ascii "// packet A { u8 x, }
-    root
-
-    packet  Logon /// triple
-  { A
-`doc` 
-, string  len
+Eval vm_compute in ("<<<M1012>>>" ++ check (runes_of_ascii "options {
+trueish =
+    i32 A= ""\" ++ [233]%N ++ runes_of_ascii """// `tick` ""quote"" 'q'
+int =// `tick` ""quote"" 'q'
+char[ 007  ]//x
+; }
+    MetaData MetaDataX { falsey float ,Logon matchKey
+``
     ,
-    }MetaData len
-{ int64  i8i8
-`{ , }`,
-    }
-
-    packet// " ++ [27880; 37322]%N ++ runes_of_ascii "
-    lengthOf
-{
-	i64
-Header
-
-, } //	t
+string stringy ,	u64
+    T
+,
+}
 ")).
-Eval vm_compute in ("<<<M1741>>>" ++ check (runes_of_ascii "options { trueish = ""`tick`"" ; string_= """ ++ [233]%N ++ runes_of_ascii "t" ++ [233]%N ++ runes_of_ascii """
+Eval vm_compute in ("<<<M1816>>>" ++ check (runes_of_ascii "options { trueish = ""`tick`"" ; string_= """ ++ [233]%N ++ runes_of_ascii "t" ++ [233]%N ++ runes_of_ascii """
     // c
     } root
-    packet body {  @calculatedFrom(
+    packet body { stringy @calculatedFrom(
 ""a	b"" ) `line1
 line2` , }
 packet Logon {
     @leftPad(
     ' ' ) //	t
-u16 string_ `u8 x,` ,
+u16  `u8 x,` ,
 }
 ")).
-Eval vm_compute in ("<<<M1193>>>" ++ check (runes_of_ascii "MetaData// trailing space 
-int {// " ++ [27880; 37322]%N ++ runes_of_ascii "
-u128 uint8x , // a // b
-string
-    o ,A metadata `u8 x,`  ,
-char[  10 ]
-rootA
-    , packetx x_y_z `doc` ,  string_ // `tick` ""quote"" 'q'
-trueish`doc` , }")).
+Eval vm_compute in ("<<<M3798>>>" ++ check (runes_of_ascii "options {
+    trueish = ""`tick`"";
+    string_ = """ ++ [233]%N ++ runes_of_ascii "t" ++ [233]%N ++ runes_of_ascii """
+    // c
+}
+
+root packet body {
+    stringy @calculatedFrom(""a	b""),
+}
+
+packet Logon {
+    @leftPad(' ')
+    //	t
+    u16 string_ `u8 x,`,
+}")).
 Eval vm_compute in ("<<<M1207>>>" ++ check (runes_of_ascii "//	t
 options
     {
@@ -2162,473 +2178,465 @@ line`
 , // c
 repeatCount @lengthOf( matchKey
 ) , }")).
-Eval vm_compute in ("<<<M1596>>>" ++ check (runes_of_ascii "packet
-//	t
-// trailing space 
-_x {
+Eval vm_compute in ("<<<M671>>>" ++ check (runes_of_ascii "
+options {
+f32a= i32
+}options// trailing space 
+{
+    //x
+    roots
+=
+    """" float ='0' ;int =
+true x_y_z=' ' ;MetaDataX=// " ++ [128512]%N ++ runes_of_ascii " emoji
+false
 // packet A { u8 x, }
-// c
-char[
-3
-    ] u8x @lengthOf(
-u8x ) , @calculatedFrom(""" ++ [128512]%N ++ runes_of_ascii """ // @lengthOf(
-)
-i16	Foo
-@lengthOf(	string_
-    )`doc`	,")).
-Eval vm_compute in ("<<<M1112>>>" ++ check (runes_of_ascii "
-packet	Packet {
-    @calculatedFrom(
-    ""1""  )
-uint8x, @leftPad	('\x00'
-    /// triple
-    ) char[] f32a @lengthOf( /// triple
-f32a // packet A { u8 x, }
-) `a\` ,  }
-
+// " ++ [128512]%N ++ runes_of_ascii " emoji
+;}
 ")).
-Eval vm_compute in ("<<<M4528>>>" ++ check (runes_of_ascii "packet A {
-    Inner {
-        match k as n {
-            [
-                1, 22, 007, 4, 5,
-                66, 7, 8, 9, 10
-            ] : B,
-        },
-    },
+Eval vm_compute in ("<<<M4246>>>" ++ check (runes_of_ascii "MetaData msg_type {
+    float32 metadata `line1
+    line2`,
+    uint16 msg_type `// not a comment`,
+    float Pad,
+    float64 trueish `{ , }`,
+    x stringy `tab	here`,
 }")).
-Eval vm_compute in ("<<<M2105>>>" ++ check (runes_of_ascii "options{
-_x
-= true
-} options options
-{ o	= /// triple
-false
-    ; chars
-= ""\n"" } root packet	Pad
-/// triple
-// packet A { u8 x, }
-{	chars
-    // a // b
-    ,}")).
-Eval vm_compute in ("<<<M2112>>>" ++ check (runes_of_ascii "options{
-_x
-= true
-} options
-repeat o	= /// triple
-false
-    ; chars
-= ""\n"" } root packet	Pad
-/// triple
-// packet A { u8 x, }
-{	chars
-    // a // b
-    ,}")).
-Eval vm_compute in ("<<<M2422>>>" ++ check (runes_of_ascii "// c
-packet x { @lengthOf( metadata ) repeat lengthOf
+Eval vm_compute in ("<<<M339>>>" ++ check (runes_of_ascii "//
+packet
+int {@leftPad (
+    '\x00' ) MetaDataX @lengthOf( u128 ) ,u
+    a1 `doc` ,
+    @calculatedFrom(
+    ""a\""b"") i16 repeatCount // @lengthOf(
+`tab	here`
+, }")).
+Eval vm_compute in ("<<<M2405>>>" ++ check (runes_of_ascii "// c
+packet packet x { @lengthOf( metadata ) repeat lengthOf
 ,a1{
 trueish	,// c
 repeat//	t
-MetaDataX , , } , zchar[
-    42	] rootA // `tick` ""quote"" 'q'
-,
-    }
-")).
-Eval vm_compute in ("<<<M2201>>>" ++ check (runes_of_ascii "options{
-_x
-= true
-} \ options
-{ o	= /// triple
-false
-    ; chars
-= ""\n"" } root packet	Pad
-/// triple
-// packet A { u8 x, }
-{	chars
-    // a // b
-    ,}")).
-Eval vm_compute in ("<<<M2194>>>" ++ check (runes_of_ascii "options{
-_x
-= true
-} options
-{ o	= /// triple
-false
-    ; chars
-= ""\n"" } root packet	Pad
-/// triple
-// packet A { u8 x, }
-{	chars
-  " ++ [127]%N ++ runes_of_ascii "  // a // b
-    ,}")).
-Eval vm_compute in ("<<<M2136>>>" ++ check (runes_of_ascii "options{
-_x
-= true
-} options
-{ o	= /// triple
-false
-    ; =
-chars ""\n"" } root packet	Pad
-/// triple
-// packet A { u8 x, }
-{	chars
-    // a // b
-    ,}")).
-Eval vm_compute in ("<<<M2207>>>" ++ check (runes_of_ascii "options{
-_x
-= true
-} options
-{ o	= /// triple
-false
-    ; chars
-= ""\n"" } root packet	x" ++ [178]%N ++ runes_of_ascii "
-/// triple
-// packet A { u8 x, }
-{	chars
-    // a // b
-    ,}")).
-Eval vm_compute in ("<<<M2317>>>" ++ check (runes_of_ascii "// c
-packet x { @lengthOf( metadata ) repeat lengthOf
-,a1{
-trueish	,// c
-//	t
 MetaDataX , } , zchar[
     42	] rootA // `tick` ""quote"" 'q'
 ,
     }
 ")).
-Eval vm_compute in ("<<<M751>>>" ++ check (runes_of_ascii "packet rootA
-{ @tag( 3
-    )char[ 255]// " ++ [27880; 37322]%N ++ runes_of_ascii "
-x `two words`, @lengthOf(
-    zchar)i32 roots ,
-    u16 Foo `say ""hi""` ,
-    } // `tick` ""quote"" 'q'")).
-Eval vm_compute in ("<<<M3911>>>" ++ check (runes_of_ascii "packet  A
+Eval vm_compute in ("<<<M1203>>>" ++ check (runes_of_ascii "root
+packet i8i8 { } options {pack
+=
+char[3
+    ]body= ""// no comment"" ;
+// @lengthOf(
+// c
+i8i8
+    // packet A { u8 x, }
+    = i32 //	t
+;	falsey
+=""a\\"" }
+")).
+Eval vm_compute in ("<<<M2392>>>" ++ check (runes_of_ascii "// c
+packet x { @lengthOf( metadata ) repeat lengthOf
+,a1{
+trueish	,// c
+repeat//	t
+MetaDataX , } , zchar[
+    42	] rootA // `tick` ""quote"" 'q'
+,
+    } }
+")).
+Eval vm_compute in ("<<<M2130>>>" ++ check (runes_of_ascii "options{
+_x
+= true
+} options
+{ o	= /// triple
+false
+    ; ; chars
+= ""\n"" } root packet	Pad
+/// triple
+// packet A { u8 x, }
+{	chars
+    // a // b
+    ,}")).
+Eval vm_compute in ("<<<M2186>>>" ++ check (runes_of_ascii "options{
+_x
+= true
+} options
+{ o	= /// triple
+false
+    ; chars
+= ""\n"" } root packet	Pad
+/// triple
+// packet A { u8 x, }
+{	chars
+    // a // b
+    ,as")).
+Eval vm_compute in ("<<<M2111>>>" ++ check (runes_of_ascii "options{
+_x
+= true
+} options
+o {	= /// triple
+false
+    ; chars
+= ""\n"" } root packet	Pad
+/// triple
+// packet A { u8 x, }
+{	chars
+    // a // b
+    ,}")).
+Eval vm_compute in ("<<<M2109>>>" ++ check (runes_of_ascii "options{
+_x
+= true
+} options
+ o	= /// triple
+false
+    ; chars
+= ""\n"" } root packet	Pad
+/// triple
+// packet A { u8 x, }
+{	chars
+    // a // b
+    ,}")).
+Eval vm_compute in ("<<<M2401>>>" ++ check (runes_of_ascii "// c
+packet x { @lengthOf( metadata ) repeat lengthOf
+,a1{
+trueish	,// c
+repeat//	t
+MetaDataX , } , }
+    42	] rootA // `tick` ""quote"" 'q'
+,
+    }
+")).
+Eval vm_compute in ("<<<M2159>>>" ++ check (runes_of_ascii "options{
+_x
+= true
+} options
+{ o	= /// triple
+false
+    ; chars
+= ""\n"" } root 	Pad
+/// triple
+// packet A { u8 x, }
+{	chars
+    // a // b
+    ,}")).
+Eval vm_compute in ("<<<M3811>>>" ++ check (runes_of_ascii "
+
+  options
+
     {
-u8	a
+}options
+{ rootA
+    =
+    zchar[  255  ]; 
+} options  { Packet 
 
-,
-    } 
-packet
-    B{ u16 
-b 
-, } root
-	packet
-
-    P
-
-    { u8
-
-K 
-,
-match
-
-K	as
-M{1 : A,
-    1
-    :
-	B
-,
-}
-	,
-}")).
-Eval vm_compute in ("<<<M210>>>" ++ check (runes_of_ascii "packet
-i64_
-{ f64 float,@tag( 0 ) @lengthOf(u )
-    float64 _x  @calculatedFrom(
-    ""x y"" )
-,}
-MetaData matchKey {
-} packet roots { }")).
-Eval vm_compute in ("<<<M3580>>>" ++ check (runes_of_ascii "packet A {
-    u8 a,
+    // `tick` ""quote"" 'q'
+  =0123456789 
+;  a1  =
+""""
+} ")).
+Eval vm_compute in ("<<<M297>>>" ++ check (runes_of_ascii "packet
+    // " ++ [27880; 37322]%N ++ runes_of_ascii "
+    Foo
+{ //x
+uint8x
+// " ++ [27880; 37322]%N ++ runes_of_ascii "
+// " ++ [128512]%N ++ runes_of_ascii " emoji
+,match
+len as options1
+// a // b
+// trailing space 
+{ 3 /// triple
+:i64_ , }
+, }
+")).
+Eval vm_compute in ("<<<M3554>>>" ++ check (runes_of_ascii "options {
+    LittleEndian = true;
 }
 packet B {
-    u16 b,
+    u8 a,
+    string s,
 }
 root packet P {
-    u8 K,
-    match K as M {
-        1 : A,
-        1 : B,
-    },
+    u16 L @lengthOf(B),
+    B,
+    u8 t,
 }
 ")).
-Eval vm_compute in ("<<<M4359>>>" ++ check (runes_of_ascii "packet A {
+Eval vm_compute in ("<<<M4067>>>" ++ check (runes_of_ascii "MetaData packetx {
+    string matchKey,/// triple
+    u8 trueish,
+    // packet A { u8 x, }
+    // `tick` ""quote"" 'q'
+}// a // b")).
+Eval vm_compute in ("<<<M4382>>>" ++ check (runes_of_ascii "packet A {
     u16 len @lengthOf(body) `a
-    
-    b`,
+        b`,
     u32 crc @calculatedFrom(""CRC32"") `a
-    
-    b`,
+        b`,
     string body,
 }")).
-Eval vm_compute in ("<<<M3900>>>" ++ check (runes_of_ascii "root packet repeatCount
-// c
-    // " ++ [128512]%N ++ runes_of_ascii " emoji
-  {
-
-    msg_type// `tick` ""quote"" 'q'
-	{
-float64 lengthOf
-`" ++ [233]%N ++ runes_of_ascii "`
-,  }
-,
-
-}
-")).
-Eval vm_compute in ("<<<M3318>>>" ++ check (runes_of_ascii "root packet matchKey { // c
-zchar[ 3 ] pack @calculatedFrom( ""a	b"" ) `doc` , } options { } MetaData A { int8 msg_type , }")).
-Eval vm_compute in ("<<<M3350>>>" ++ check (runes_of_ascii "root packet matchKey { zchar[ 3 ] pack @calculatedFrom( ""a	b"" ) `doc` , } options { } MetaData A { // c
-int8 msg_type , }")).
-Eval vm_compute in ("<<<M689>>>" ++ check (runes_of_ascii "options { packetx
-=
-255 ; }
-packet float
-{ repeat
-    //
-    f64 metadata `
-`
-//	t
-//	t
-,}
-MetaData leftPad {
-} //x")).
-Eval vm_compute in ("<<<M1454>>>" ++ check (runes_of_ascii "
+Eval vm_compute in ("<<<M3312>>>" ++ check (runes_of_ascii "root // c
+packet matchKey { zchar[ 3 ] pack @calculatedFrom( ""a	b"" ) `doc` , } options { } MetaData A { int8 msg_type , }")).
+Eval vm_compute in ("<<<M3344>>>" ++ check (runes_of_ascii "root packet matchKey { zchar[ 3 ] pack @calculatedFrom( ""a	b"" ) `doc` , } options { } // c
+MetaData A { int8 msg_type , }")).
+Eval vm_compute in ("<<<M1481>>>" ++ check (runes_of_ascii "
 packet
     falsey { Header@calculatedFrom(""packet""  ) , char[
-    0123456789 ] ,
-    packetx } // `tick` ""quote"" 'q'")).
-Eval vm_compute in ("<<<M1760>>>" ++ check (runes_of_ascii "options { trueish = ""`tick`"" ; string_= """ ++ [233]%N ++ runes_of_ascii "t" ++ [233]%N ++ runes_of_ascii """
-    // c
-    } root
-    packet body { stringy @calculatedFrom(
-""a	b""")).
-Eval vm_compute in ("<<<M1402>>>" ++ check (runes_of_ascii "
+    0123456789 ''] packetx
+    , } // `tick` ""quote"" 'q'")).
+Eval vm_compute in ("<<<M1409>>>" ++ check (runes_of_ascii "
 packet
-     { Header@calculatedFrom(""packet""  ) , char[
+    falsey Header {@calculatedFrom(""packet""  ) , char[
     0123456789 ] packetx
     , } // `tick` ""quote"" 'q'")).
-Eval vm_compute in ("<<<M47>>>" ++ check (runes_of_ascii "options
-{ options1= uint64 ;	}
-root packet /// triple
-T {MetaDataX//x
-`// not a comment` , } packet crc {}
-")).
-Eval vm_compute in ("<<<M3807>>>" ++ check (runes_of_ascii "options {
-    packetx = 255;
-}
-
-packet float {
-    repeat f64 metadata `
-    `,
-}
-
-MetaData leftPad {
-}//x")).
-Eval vm_compute in ("<<<M4308>>>" ++ check (runes_of_ascii "options {
-    options1 = uint64;
-}
-
-root packet T {
-    MetaDataX `// not a comment`,
-}
-
-packet crc {
+Eval vm_compute in ("<<<M2991>>>" ++ check (runes_of_ascii "packet A {
+  match k as n {
+    [""a"", ""bb"", ""c c"", ""d"", ""e"", ""f"", ""g"", ""h"", ""i"", ""j"", ""k"", ""l""] : B
+    2 : C
+  },
 }")).
-Eval vm_compute in ("<<<M4278>>>" ++ check (runes_of_ascii "packet A {
-    @rightPad(' ')
-    @calculatedFrom(""" ++ [233]%N ++ runes_of_ascii "t" ++ [233]%N ++ runes_of_ascii """)
-    int16 crc `tab	here`,
-}
-
-MetaData x {
+Eval vm_compute in ("<<<M3831>>>" ++ check (runes_of_ascii "packet uint8x {
+    repeat repeatCount {
+        Packet @calculatedFrom(""packet""),
+    },// packet A { u8 x, }
 }")).
-Eval vm_compute in ("<<<M4193>>>" ++ check (runes_of_ascii "packet
-metadata  {
+Eval vm_compute in ("<<<M3697>>>" ++ check (runes_of_ascii "
+packet A
+	{  match
+	k as  n
+{
 
-Logon
-{  // c
-	A`" ++ [28040; 24687; 31867; 22411]%N ++ runes_of_ascii "` 
-,  tag o	,
-}  ,zchar
-	len
-`// not a comment`
-,  }
+    [ ""a""  , ""bb""
+	,
+    ""c c"" 
+,	""d"" ,
+	""e"" 
+]
+:  B
+
+    , 2 : C	} 
+, }")).
+Eval vm_compute in ("<<<M2992>>>" ++ check (runes_of_ascii "packet A {
+  match k as n {
+    [1, ""bb"", 007, ""d"", 5, ""f"", 7, ""h"", 9, ""j"", 11, ""l""] : B,
+    2 : C
+  },
+}")).
+Eval vm_compute in ("<<<M2996>>>" ++ check (runes_of_ascii "packet A {
+  match k as n {
+    [1, 22, ""c c"", 4, 5, ""f"", 7, 8, ""i"", 10, 11, ""l""] : B,
+    2 : C
+  },
+}")).
+Eval vm_compute in ("<<<M4212>>>" ++ check (runes_of_ascii "  MetaData float
+	{ float64 charz `
+`	,
+
+    } root	packet chars{ @rightPad ( '0'  )
+Foo ,} 	 // c")).
+Eval vm_compute in ("<<<M645>>>" ++ check (runes_of_ascii "packet lengthOf
+{match u128	as i8i8
+// " ++ [128512]%N ++ runes_of_ascii " emoji
+// c
+{""a\\"" :Header
+, } // `tick` ""quote"" 'q'
+, }")).
+Eval vm_compute in ("<<<M3551>>>" ++ check (runes_of_ascii "packet B {
+    u8 a,
+    string s,
+}
+root packet P {
+    u16 L @lengthOf(B),
+    B,
+    u8 t,
+}
 ")).
-Eval vm_compute in ("<<<M2222>>>" ++ check (runes_of_ascii "options
-{ } options options { BodyLength= u16 Header= f64 ; u128 =
+Eval vm_compute in ("<<<M2219>>>" ++ check (runes_of_ascii "options
+{ MetaData options { BodyLength= u16 Header= f64 ; u128 =
     true
     ; } // a // b")).
-Eval vm_compute in ("<<<M461>>>" ++ check (runes_of_ascii "packet x_y_z {msg_type {  char[]Z9_ @lengthOf( Packet
-    ) `` , }, } // packet A { u8 x, }")).
-Eval vm_compute in ("<<<M3520>>>" ++ check (runes_of_ascii "packet chars { } packet MetaDataX { @tag( 42 ) i16 string_ , repeat x `say ""hi""` , }
-// c
+Eval vm_compute in ("<<<M2926>>>" ++ check (runes_of_ascii "packet A {
+  match k as n {
+    [""a"", ""bb"", ""c c"", ""d"", ""e"", ""f"", ""g""] : B
+    2 : C
+  },
+}")).
+Eval vm_compute in ("<<<M866>>>" ++ check (runes_of_ascii "
+root packet len
+    {char[  1] Foo
+    @calculatedFrom( ""abc""
+),// `tick` ""quote"" 'q'
+}
 ")).
-Eval vm_compute in ("<<<M3286>>>" ++ check (runes_of_ascii "MetaData float { float64 charz `
-` , } root
+Eval vm_compute in ("<<<M3292>>>" ++ check (runes_of_ascii "MetaData float { float64 charz `
+` , } root packet chars {
 // c
-packet chars { @rightPad ( '0' ) Foo , }")).
-Eval vm_compute in ("<<<M3497>>>" ++ check (runes_of_ascii "packet chars { } packet MetaDataX { // c
-@tag( 42 ) i16 string_ , repeat x `say ""hi""` , }")).
-Eval vm_compute in ("<<<M2252>>>" ++ check (runes_of_ascii "options
-{ } options { BodyLength= u16 Header= = f64 ; u128 =
-    true
-    ; } // a // b")).
-Eval vm_compute in ("<<<M2306>>>" ++ check (runes_of_ascii "options
-{ } options { BodyLength= u16 Header'= f64 ; u128 =
-    true
-    ; } // a // b")).
-Eval vm_compute in ("<<<M2258>>>" ++ check (runes_of_ascii "options
-{ } options { BodyLength= u16 Header= ; f64 u128 =
-    true
-    ; } // a // b")).
-Eval vm_compute in ("<<<M3236>>>" ++ check (runes_of_ascii "packet metadata { Logon { A `" ++ [28040; 24687; 31867; 22411]%N ++ runes_of_ascii "` , tag o , }
-// c
-, zchar len `// not a comment` , }")).
-Eval vm_compute in ("<<<M2292>>>" ++ check (runes_of_ascii "options
+@rightPad ( '0' ) Foo , }")).
+Eval vm_compute in ("<<<M3503>>>" ++ check (runes_of_ascii "packet chars { } packet MetaDataX { @tag( 42 ) // c
+i16 string_ , repeat x `say ""hi""` , }")).
+Eval vm_compute in ("<<<M2287>>>" ++ check (runes_of_ascii "options
 { } options { BodyLength= u16 Header= f64 ; u128 =
     true
-    ; } // a // ")).
-Eval vm_compute in ("<<<M3456>>>" ++ check (runes_of_ascii "packet o { repeat Logon uint8x , } options { asx = zchar[ 3
+    ; } } // a // b")).
+Eval vm_compute in ("<<<M3212>>>" ++ check (runes_of_ascii "
 // c
-] stringy = '\x00' }")).
-Eval vm_compute in ("<<<M1386>>>" ++ check (runes_of_ascii "
-packet msg_type { } MetaData
-leftPad { int32
-calculatedFrom`
-`  ,
-    } /// triple")).
-Eval vm_compute in ("<<<M3401>>>" ++ check (runes_of_ascii "MetaData body { i64
-// c
-pack `it's` , } packet stringy { int16 calculatedFrom , }")).
-Eval vm_compute in ("<<<M2937>>>" ++ check (runes_of_ascii "packet A {
+packet metadata { Logon { A `" ++ [28040; 24687; 31867; 22411]%N ++ runes_of_ascii "` , tag o , } , zchar len `// not a comment` , }")).
+Eval vm_compute in ("<<<M2930>>>" ++ check (runes_of_ascii "packet A {
   match k as n {
-    [1, 22, 007, 4, 5, 66, 7, 8] : B
+    [""a"", 22, ""c c"", 4, ""e"", 66, ""g""] : B
     2 : C
   },
 }")).
-Eval vm_compute in ("<<<M3781>>>" ++ check (runes_of_ascii "root packet repeatCount {
-    msg_type {
-        float64 lengthOf `" ++ [233]%N ++ runes_of_ascii "`,
+Eval vm_compute in ("<<<M3243>>>" ++ check (runes_of_ascii "packet metadata { Logon { A `" ++ [28040; 24687; 31867; 22411]%N ++ runes_of_ascii "` , tag o , } , zchar len `// not a comment` // c
+, }")).
+Eval vm_compute in ("<<<M3434>>>" ++ check (runes_of_ascii "packet o {
+// c
+repeat Logon uint8x , } options { asx = zchar[ 3 ] stringy = '\x00' }")).
+Eval vm_compute in ("<<<M3899>>>" ++ check (runes_of_ascii "root packet o {
+    @calculatedFrom(""a\""b"")
+    repeat crc,
+    @tag(10)
+    x_y_z,
+}")).
+Eval vm_compute in ("<<<M3393>>>" ++ check (runes_of_ascii "
+// c
+MetaData body { i64 pack `it's` , } packet stringy { int16 calculatedFrom , }")).
+Eval vm_compute in ("<<<M3409>>>" ++ check (runes_of_ascii "MetaData body { i64 pack `it's` , }
+// c
+packet stringy { int16 calculatedFrom , }")).
+Eval vm_compute in ("<<<M4053>>>" ++ check (runes_of_ascii "packet A {
+    match k as n {
+        [1, 22, ""c c""] : B,
+        2 : C,
     },
 }")).
-Eval vm_compute in ("<<<M2902>>>" ++ check (runes_of_ascii "packet A {
+Eval vm_compute in ("<<<M2309>>>" ++ check (runes_of_ascii "options
+{ } options { " ++ [21517; 23383]%N ++ runes_of_ascii "= u16 Header= f64 ; u128 =
+    true
+    ; } // a // b")).
+Eval vm_compute in ("<<<M2894>>>" ++ check (runes_of_ascii "packet A {
   match k as n {
-    [1, ""bb"", 007, ""d"", 5] : B
+    [""a"", ""bb"", 007, ""d""] : B,
     2 : C
   },
 }")).
-Eval vm_compute in ("<<<M2873>>>" ++ check (runes_of_ascii "packet A {
+Eval vm_compute in ("<<<M2716>>>" ++ check (runes_of_ascii "string @tag( float64 ""packet"" u16 packet { ( f32 } @calculatedFrom( : as")).
+Eval vm_compute in ("<<<M2893>>>" ++ check (runes_of_ascii "packet A {
   match k as n {
-    [""a"", ""bb"", ""c c""] : B,
+    [1, 22, ""c c"", 4] : B
     2 : C
   },
 }")).
-Eval vm_compute in ("<<<M1837>>>" ++ check (runes_of_ascii "options { trueish = ""`tick`"" ; string_= """ ++ [233]%N ++ runes_of_ascii "t" ++ [233]%N ++ runes_of_ascii """
-    // c
-    } root
-   ")).
-Eval vm_compute in ("<<<M4163>>>" ++ check (runes_of_ascii "// top
+Eval vm_compute in ("<<<M2727>>>" ++ check (runes_of_ascii "MetaData packet true string `doc` = `it's` char[ MetaData false u16")).
+Eval vm_compute in ("<<<M4358>>>" ++ check (runes_of_ascii "
+options
+{ 
 
-root// c0a
+    // " ++ [27880; 37322]%N ++ runes_of_ascii "
+		len= 
+    // @lengthOf(
+	// c
 
-// c0b
-	packet
-pack// c2a
+  3
 
-// c2b
-
-{ // c3
+}")).
+Eval vm_compute in ("<<<M669>>>" ++ check (runes_of_ascii "packet calculatedFrom
+{ u32	metadata @lengthOf( Logon
+)
+, }
+")).
+Eval vm_compute in ("<<<M572>>>" ++ check (runes_of_ascii "
+options
+    // a // b
+    {
+    f32a = '0' ;
 }
+options{}
 ")).
-Eval vm_compute in ("<<<M2738>>>" ++ check (runes_of_ascii "i16 0 char[ repeat zchar[ i64 : repeat `tab	here` as int8 { root")).
-Eval vm_compute in ("<<<M1157>>>" ++ check (runes_of_ascii "
-MetaData lengthOf
-    {	uint32
-T `crlf
-line` ,}
-/// triple
-")).
-Eval vm_compute in ("<<<M2896>>>" ++ check (runes_of_ascii "packet A { Inner { match k as n { [1,22,007,4] : B, }, }, }")).
-Eval vm_compute in ("<<<M3376>>>" ++ check (runes_of_ascii "packet x { @rightPad ( )
+Eval vm_compute in ("<<<M3368>>>" ++ check (runes_of_ascii "packet x
 // c
-repeat roots Logon `doc` , }")).
-Eval vm_compute in ("<<<M824>>>" ++ check (runes_of_ascii "options
-    { float	=
-// " ++ [128512]%N ++ runes_of_ascii " emoji
-// @lengthOf(
-string }
-")).
-Eval vm_compute in ("<<<M3844>>>" ++ check (runes_of_ascii "root	packet u128 {
-    chars `it's` ,	} 
-        // c")).
-Eval vm_compute in ("<<<M226>>>" ++ check (runes_of_ascii "MetaData trueish { u64// trailing space 
-i8i8 , }")).
-Eval vm_compute in ("<<<M112>>>" ++ check (runes_of_ascii "MetaData crc { uint8x float
-,}
-// @lengthOf(
-")).
-Eval vm_compute in ("<<<M3996>>>" ++ check (runes_of_ascii "
+{ @rightPad ( ) repeat roots Logon `doc` , }")).
+Eval vm_compute in ("<<<M4255>>>" ++ check (runes_of_ascii "
+packet
+	A {
+	match k	as
+	n
+{  [ 
+1
 
-  MetaData
-    T {  int64 
-i8i8
-	``
-,
-	}
+] : 
+B  2
+
+:
+
+C},
+	}")).
+Eval vm_compute in ("<<<M1139>>>" ++ check (runes_of_ascii "options {
+    // " ++ [27880; 37322]%N ++ runes_of_ascii "
+    len =
+// @lengthOf(
+// c
+3 }
 ")).
-Eval vm_compute in ("<<<M229>>>" ++ check (runes_of_ascii "packet float { }	packet
-body
-    { }
-//x
-")).
-Eval vm_compute in ("<<<M2612>>>" ++ check (runes_of_ascii "packet A { match k as n { [[1]] : B }, }")).
-Eval vm_compute in ("<<<M4215>>>" ++ check (runes_of_ascii "root packet P {
-    char c,
-    u8 x,
+Eval vm_compute in ("<<<M262>>>" ++ check (runes_of_ascii "MetaData u128 { uint8x msg_type `line1
+line2`	, }")).
+Eval vm_compute in ("<<<M4172>>>" ++ check (runes_of_ascii "root packet u128 {
+    // c
+    chars `it's`,
 }")).
-Eval vm_compute in ("<<<M137>>>" ++ check (runes_of_ascii "//x
-MetaData falsey{ string Pad , }
+Eval vm_compute in ("<<<M3734>>>" ++ check (runes_of_ascii "packet A {
+    u8 x `a
+        
+        b`,
+}")).
+Eval vm_compute in ("<<<M2730>>>" ++ check (runes_of_ascii "@tag( } ""\n"" MetaData { @calculatedFrom( ]")).
+Eval vm_compute in ("<<<M3190>>>" ++ check (runes_of_ascii "root
+// c
+packet u128 { chars `it's` , }")).
+Eval vm_compute in ("<<<M1059>>>" ++ check (runes_of_ascii "MetaData uint8x // trailing space 
+{	}")).
+Eval vm_compute in ("<<<M2617>>>" ++ check (runes_of_ascii "packet A { match k as n { 1 : 2 }, }")).
+Eval vm_compute in ("<<<M3176>>>" ++ check (runes_of_ascii "root // a
+ packet // b
+ A // c
+ { }")).
+Eval vm_compute in ("<<<M2601>>>" ++ check (runes_of_ascii "packet A { B { @tag(1) u8 x, }, }")).
+Eval vm_compute in ("<<<M4197>>>" ++ check (runes_of_ascii "MetaData a1 {
+    u64 packetx,
+}")).
+Eval vm_compute in ("<<<M2817>>>" ++ check ([65533; 65533; 65533]%N ++ runes_of_ascii "Et" ++ [65533]%N ++ runes_of_ascii "b" ++ [65533]%N ++ runes_of_ascii "=" ++ [4; 15]%N ++ runes_of_ascii "@" ++ [65533; 65533]%N ++ runes_of_ascii "yr" ++ [65533]%N ++ runes_of_ascii "_	kM" ++ [1260; 65533; 23]%N ++ runes_of_ascii "j_" ++ [65533; 65533; 8; 65533]%N)).
+Eval vm_compute in ("<<<M3161>>>" ++ check (runes_of_ascii "MetaData M {
+}// c
+options {}")).
+Eval vm_compute in ("<<<M2780>>>" ++ check (runes_of_ascii "&.0eM;;i>|Pm^?l:T]h$Bi_(l64")).
+Eval vm_compute in ("<<<M1093>>>" ++ check (runes_of_ascii "options { }
+options { }
 ")).
-Eval vm_compute in ("<<<M2695>>>" ++ check (runes_of_ascii "@&%t""ZYSa""[h-SeOaEg6\yrr.ozSs#Cy5AO")).
-Eval vm_compute in ("<<<M4173>>>" ++ check (runes_of_ascii "root packet MetaDataX {
-}// a // b")).
-Eval vm_compute in ("<<<M2776>>>" ++ check (runes_of_ascii "kt*o ,Ndx:NTU=^7""XUGU%zgi5(X*Kwj")).
-Eval vm_compute in ("<<<M2700>>>" ++ check (runes_of_ascii "Pad as char root float32 : u16")).
-Eval vm_compute in ("<<<M2756>>>" ++ check (runes_of_ascii "P={<`""w|U c%74a5s%ZJ!a{B`/*I$")).
-Eval vm_compute in ("<<<M2712>>>" ++ check (runes_of_ascii """1"" char u32 @rightPad int8")).
-Eval vm_compute in ("<<<M108>>>" ++ check (runes_of_ascii "packet  o {  } // " ++ [128512]%N ++ runes_of_ascii " emoji")).
-Eval vm_compute in ("<<<M2664>>>" ++ check (runes_of_ascii "options { a = char[x]; }")).
-Eval vm_compute in ("<<<M3789>>>" ++ check (runes_of_ascii "packet f32a
-
-    { }")).
-Eval vm_compute in ("<<<M2714>>>" ++ check ([65533; 0; 65533; 65533]%N ++ runes_of_ascii "r" ++ [65533]%N ++ runes_of_ascii "`" ++ [65533]%N ++ runes_of_ascii "o2e" ++ [65533; 65533]%N ++ runes_of_ascii "r" ++ [2]%N ++ runes_of_ascii "#" ++ [65533; 65533]%N ++ runes_of_ascii "N" ++ [65533]%N)).
-Eval vm_compute in ("<<<M2848>>>" ++ check ([65533; 16; 25; 65533; 1737]%N ++ runes_of_ascii "%)I" ++ [65533; 65533]%N ++ runes_of_ascii "$" ++ [65533; 19; 65533; 65533; 6; 65533; 27; 16]%N)).
-Eval vm_compute in ("<<<M3065>>>" ++ check (runes_of_ascii "packet A {
-}
-// c" ++ [12288]%N)).
-Eval vm_compute in ("<<<M3158>>>" ++ check (runes_of_ascii "MetaData M {
-}// c")).
-Eval vm_compute in ("<<<M3118>>>" ++ check (runes_of_ascii "packet A {
-}// c" ++ [12]%N)).
-Eval vm_compute in ("<<<M3155>>>" ++ check (runes_of_ascii "packet A {
-}
-
+Eval vm_compute in ("<<<M1136>>>" ++ check (runes_of_ascii "// packet A { u8 x, }
 
 ")).
-Eval vm_compute in ("<<<M1294>>>" ++ check (runes_of_ascii "
-/// triple
+Eval vm_compute in ("<<<M2564>>>" ++ check (runes_of_ascii "packet A { repeat u8 }")).
+Eval vm_compute in ("<<<M1416>>>" ++ check (runes_of_ascii "
+packet
+    falsey {")).
+Eval vm_compute in ("<<<M2632>>>" ++ check (runes_of_ascii "packet A { } packet")).
+Eval vm_compute in ("<<<M3060>>>" ++ check (runes_of_ascii "packet A {
+}
+// c ")).
+Eval vm_compute in ("<<<M3141>>>" ++ check (runes_of_ascii "// c" ++ [6158]%N ++ runes_of_ascii "
+packet A {
+}")).
+Eval vm_compute in ("<<<M3113>>>" ++ check (runes_of_ascii "packet A {
+}// c" ++ [11]%N)).
+Eval vm_compute in ("<<<M2571>>>" ++ check (runes_of_ascii "packet A { x, }")).
+Eval vm_compute in ("<<<M968>>>" ++ check (runes_of_ascii "options { }
 ")).
 Eval vm_compute in ("<<<M2686>>>" ++ check (runes_of_ascii "// a
 // b
 ")).
-Eval vm_compute in ("<<<M340>>>" ++ check (runes_of_ascii "// " ++ [27880; 37322]%N ++ runes_of_ascii "
-
-")).
-Eval vm_compute in ("<<<M2469>>>" ++ check (runes_of_ascii "Packet")).
-Eval vm_compute in ("<<<M2522>>>" ++ check (runes_of_ascii "`a
-b`")).
-Eval vm_compute in ("<<<M2491>>>" ++ check (runes_of_ascii "@tag")).
-Eval vm_compute in ("<<<M2502>>>" ++ check (runes_of_ascii "//")).
-Eval vm_compute in ("<<<M2496>>>" ++ check (runes_of_ascii "@@")).
-Eval vm_compute in ("<<<M2683>>>" ++ check (runes_of_ascii "")).
+Eval vm_compute in ("<<<M2426>>>" ++ check (runes_of_ascii "char[ ]")).
+Eval vm_compute in ("<<<M2795>>>" ++ check (runes_of_ascii "Hq=" ++ [65533]%N ++ runes_of_ascii "E" ++ [6]%N)).
+Eval vm_compute in ("<<<M3079>>>" ++ check (runes_of_ascii "// c" ++ [5760]%N)).
+Eval vm_compute in ("<<<M2527>>>" ++ check (runes_of_ascii "0x10")).
+Eval vm_compute in ("<<<M2534>>>" ++ check (runes_of_ascii "a_b")).
+Eval vm_compute in ("<<<M2538>>>" ++ check (runes_of_ascii "1_")).
